@@ -67,7 +67,10 @@ fn install_panic_hook() {
     static ONCE: std::sync::Once = std::sync::Once::new();
     ONCE.call_once(|| {
         std::panic::set_hook(Box::new(|info| {
-            let loc = info.location().map(|l| format!("{}:{}", l.file(), l.line())).unwrap_or_else(|| "?".into());
+            let loc = info
+                .location()
+                .map(|l| format!("{}:{}", l.file(), l.line()))
+                .unwrap_or_else(|| "?".into());
             let msg = if let Some(s) = info.payload().downcast_ref::<&str>() {
                 s.to_string()
             } else if let Some(s) = info.payload().downcast_ref::<String>() {
@@ -82,7 +85,11 @@ fn install_panic_hook() {
 }
 
 fn take_panic() -> (String, String) {
-    LAST_PANIC.lock().unwrap_or_else(|e| e.into_inner()).take().unwrap_or_else(|| ("?".into(), "?".into()))
+    LAST_PANIC
+        .lock()
+        .unwrap_or_else(|e| e.into_inner())
+        .take()
+        .unwrap_or_else(|| ("?".into(), "?".into()))
 }
 
 // ------------------------------------------------------------------ generated configuration
@@ -166,7 +173,11 @@ fn addr_bits(a: &IpAddr) -> (bool, u128) {
 }
 
 fn bits_addr(v6: bool, b: u128) -> IpAddr {
-    if v6 { IpAddr::V6(Ipv6Addr::from(b)) } else { IpAddr::V4(Ipv4Addr::from(b as u32)) }
+    if v6 {
+        IpAddr::V6(Ipv6Addr::from(b))
+    } else {
+        IpAddr::V4(Ipv4Addr::from(b as u32))
+    }
 }
 
 fn top_bits(b: u128, w: u32, len: u32) -> u128 {
@@ -185,12 +196,23 @@ fn ref_contains(p: &PrefixGen, a: &IpAddr) -> bool {
 }
 
 fn prefix_of(v6: bool, bits: u128, len: u8) -> PrefixGen {
-    PrefixGen { text: format!("{}/{}", bits_addr(v6, bits), len), v6, bits, len }
+    PrefixGen {
+        text: format!("{}/{}", bits_addr(v6, bits), len),
+        v6,
+        bits,
+        len,
+    }
 }
 
 fn prefix_class(p: &PrefixGen) -> String {
     let w = width(p.v6);
-    let host_mask: u128 = if p.len as u32 >= w { 0 } else if p.len == 0 { if p.v6 { u128::MAX } else { u32::MAX as u128 } } else { (1u128 << (w - p.len as u32)) - 1 };
+    let host_mask: u128 = if p.len as u32 >= w {
+        0
+    } else if p.len == 0 {
+        if p.v6 { u128::MAX } else { u32::MAX as u128 }
+    } else {
+        (1u128 << (w - p.len as u32)) - 1
+    };
     let dirty = p.bits & host_mask != 0;
     let shape = if p.len == 0 {
         "len0"
@@ -212,7 +234,13 @@ fn prefix_class(p: &PrefixGen) -> String {
     format!(
         "{}/{}",
         shape,
-        if dirty_in_partial_byte { "dirty-partial-byte" } else if dirty { "dirty-host-bits" } else { "clean" }
+        if dirty_in_partial_byte {
+            "dirty-partial-byte"
+        } else if dirty {
+            "dirty-host-bits"
+        } else {
+            "clean"
+        }
     )
 }
 
@@ -238,10 +266,21 @@ fn gen_fams(rng: &mut Rng, v6_peer: bool, with_limits: bool) -> Vec<FamGen> {
                 fam,
                 name,
                 rx: addpath && rng.chance(2, 3),
-                send_max: if addpath && rng.chance(2, 3) { *rng.pick(&[1u32, 2, 8, 255]) } else { 0 },
+                send_max: if addpath && rng.chance(2, 3) {
+                    *rng.pick(&[1u32, 2, 8, 255])
+                } else {
+                    0
+                },
                 gr: false,
-                llgr: if rng.chance(1, 4) { Some(*rng.pick(&[1u32, 600, 86400, 0xff_ffff])) } else { None },
-                limit: if with_limits && (fam == Family::IPV4 || fam == Family::IPV6) && rng.chance(1, 2) {
+                llgr: if rng.chance(1, 4) {
+                    Some(*rng.pick(&[1u32, 600, 86400, 0xff_ffff]))
+                } else {
+                    None
+                },
+                limit: if with_limits
+                    && (fam == Family::IPV4 || fam == Family::IPV6)
+                    && rng.chance(1, 2)
+                {
                     Some(*rng.pick(&[1u32, 10, 1000, 4_000_000_000]))
                 } else {
                     None
@@ -251,7 +290,13 @@ fn gen_fams(rng: &mut Rng, v6_peer: bool, with_limits: bool) -> Vec<FamGen> {
         .collect()
 }
 
-fn gen_common(rng: &mut Rng, for_group: bool, v6_peer: bool, confed: bool, in_group: bool) -> Common {
+fn gen_common(
+    rng: &mut Rng,
+    for_group: bool,
+    v6_peer: bool,
+    confed: bool,
+    in_group: bool,
+) -> Common {
     let peer_as = if for_group {
         *rng.pick(&[65002u32, 65002, 65001, 65003, 65100, 4_200_000_001, 0])
     } else if in_group && rng.chance(1, 2) {
@@ -259,12 +304,24 @@ fn gen_common(rng: &mut Rng, for_group: bool, v6_peer: bool, confed: bool, in_gr
     } else {
         *rng.pick(&[65002u32, 65001, 65001, 65003, 65100, 4_200_000_001])
     };
-    let fams = if rng.chance(if for_group { 3 } else { 1 }, if for_group { 4 } else { 2 }) { gen_fams(rng, v6_peer, !for_group) } else { vec![] };
+    let fams = if rng.chance(if for_group { 3 } else { 1 }, if for_group { 4 } else { 2 }) {
+        gen_fams(rng, v6_peer, !for_group)
+    } else {
+        vec![]
+    };
     let mut c = Common {
         peer_as,
         // no per-neighbour local-as inside a confederation (the statement does not say which wins)
-        local_as: if !confed && rng.chance(1, 6) { 65050 } else { 0 },
-        hold: if rng.chance(1, 2) { Some(*rng.pick(&[3u32, 30, 90, 240, 3600, 65535])) } else { None },
+        local_as: if !confed && rng.chance(1, 6) {
+            65050
+        } else {
+            0
+        },
+        hold: if rng.chance(1, 2) {
+            Some(*rng.pick(&[3u32, 30, 90, 240, 3600, 65535]))
+        } else {
+            None
+        },
         passive: rng.chance(1, 3),
         rs_client: rng.chance(1, 6),
         rr_client: rng.chance(1, 3),
@@ -290,7 +347,11 @@ fn gen_common(rng: &mut Rng, for_group: bool, v6_peer: bool, confed: bool, in_gr
 }
 
 fn gen_cfg(rng: &mut Rng) -> CfgGen {
-    let loader = if rng.bool() { Loader::Grpc } else { Loader::Toml };
+    let loader = if rng.bool() {
+        Loader::Grpc
+    } else {
+        Loader::Toml
+    };
     let confed = if rng.chance(1, 4) {
         Some(match rng.below(3) {
             0 => vec![65003],
@@ -307,7 +368,12 @@ fn gen_cfg(rng: &mut Rng) -> CfgGen {
         let a = match rng.below(6) {
             0 => Ipv4Addr::new(127, 0, 0, rng.range(1, 5) as u8),
             1 => Ipv4Addr::new(127, rng.range(0, 3) as u8 * 64, 0, rng.range(1, 250) as u8),
-            _ => Ipv4Addr::new(127, rng.below(256) as u8, rng.below(256) as u8, rng.range(1, 254) as u8),
+            _ => Ipv4Addr::new(
+                127,
+                rng.below(256) as u8,
+                rng.below(256) as u8,
+                rng.range(1, 254) as u8,
+            ),
         };
         if !universe.contains(&IpAddr::V4(a)) {
             universe.push(IpAddr::V4(a));
@@ -353,11 +419,19 @@ fn gen_cfg(rng: &mut Rng) -> CfgGen {
                 let mut b = bits;
                 match rng.below(6) {
                     // clean host bits
-                    0 | 1 => b = top_bits(b, w, len as u32).checked_shl(w - len as u32).unwrap_or(0) & (u32::MAX as u128),
+                    0 | 1 => {
+                        b = top_bits(b, w, len as u32)
+                            .checked_shl(w - len as u32)
+                            .unwrap_or(0)
+                            & (u32::MAX as u128)
+                    }
                     // near miss: flip one bit inside the mask
                     2 if len > 0 => b ^= 1u128 << (w - 1 - rng.below(len as u64) as u32),
                     // unrelated
-                    3 if rng.chance(1, 3) => b = u32::from(Ipv4Addr::new(*rng.pick(&[10u8, 128, 192, 126]), 1, 2, 3)) as u128,
+                    3 if rng.chance(1, 3) => {
+                        b = u32::from(Ipv4Addr::new(*rng.pick(&[10u8, 128, 192, 126]), 1, 2, 3))
+                            as u128
+                    }
                     // host bits left as they are (dirty unless the address happens to be clean)
                     _ => {}
                 }
@@ -367,7 +441,11 @@ fn gen_cfg(rng: &mut Rng) -> CfgGen {
                 prefixes.push(p);
             }
         }
-        groups.push(GroupGen { name: format!("g{}", gi), c, prefixes });
+        groups.push(GroupGen {
+            name: format!("g{}", gi),
+            c,
+            prefixes,
+        });
     }
     // static neighbours
     let ns = rng.range(1, 3) as usize;
@@ -375,7 +453,11 @@ fn gen_cfg(rng: &mut Rng) -> CfgGen {
     let mut pool = universe.clone();
     rng.shuffle(&mut pool);
     for a in pool.into_iter().take(ns) {
-        let group = if !groups.is_empty() && rng.chance(1, 2) { Some(rng.pick(&groups).name.clone()) } else { None };
+        let group = if !groups.is_empty() && rng.chance(1, 2) {
+            Some(rng.pick(&groups).name.clone())
+        } else {
+            None
+        };
         let mut c = gen_common(rng, false, a.is_ipv6(), confed.is_some(), group.is_some());
         if group.is_none() && c.peer_as == 0 {
             c.peer_as = 65002;
@@ -395,7 +477,13 @@ fn gen_cfg(rng: &mut Rng) -> CfgGen {
             },
         });
     }
-    CfgGen { loader, confed, groups, neighs, universe }
+    CfgGen {
+        loader,
+        confed,
+        groups,
+        neighs,
+        universe,
+    }
 }
 
 // ------------------------------------------------------------------ configuration text / API forms
@@ -408,38 +496,61 @@ fn common_toml(p: &str, c: &Common, out: &mut String) {
         out.push_str(&format!("[{p}.transport.config]\npassive-mode = true\n"));
     }
     if c.rr_client || c.cluster_id.is_some() {
-        out.push_str(&format!("[{p}.route-reflector.config]\nroute-reflector-client = {}\n", c.rr_client));
+        out.push_str(&format!(
+            "[{p}.route-reflector.config]\nroute-reflector-client = {}\n",
+            c.rr_client
+        ));
         if let Some(id) = c.cluster_id {
             out.push_str(&format!("route-reflector-cluster-id = \"{id}\"\n"));
         }
     }
     if c.rs_client {
-        out.push_str(&format!("[{p}.route-server.config]\nroute-server-client = true\n"));
+        out.push_str(&format!(
+            "[{p}.route-server.config]\nroute-server-client = true\n"
+        ));
     }
     if let Some((rt, n)) = c.gr {
         out.push_str(&format!("[{p}.graceful-restart.config]\nenabled = true\nrestart-time = {rt}\nnotification-enabled = {n}\n"));
     }
     for f in &c.fams {
-        out.push_str(&format!("[[{p}.afi-safis]]\n[{p}.afi-safis.config]\nafi-safi-name = \"{}\"\n", f.name));
+        out.push_str(&format!(
+            "[[{p}.afi-safis]]\n[{p}.afi-safis.config]\nafi-safi-name = \"{}\"\n",
+            f.name
+        ));
         if f.gr {
-            out.push_str(&format!("[{p}.afi-safis.mp-graceful-restart.config]\nenabled = true\n"));
+            out.push_str(&format!(
+                "[{p}.afi-safis.mp-graceful-restart.config]\nenabled = true\n"
+            ));
         }
         if let Some(t) = f.llgr {
             out.push_str(&format!("[{p}.afi-safis.long-lived-graceful-restart.config]\nenabled = true\nrestart-time = {t}\n"));
         }
         if f.rx || f.send_max > 0 {
-            out.push_str(&format!("[{p}.afi-safis.add-paths.config]\nreceive = {}\nsend-max = {}\n", f.rx, f.send_max));
+            out.push_str(&format!(
+                "[{p}.afi-safis.add-paths.config]\nreceive = {}\nsend-max = {}\n",
+                f.rx, f.send_max
+            ));
         }
         if let Some(l) = f.limit {
-            let cont = if f.fam == Family::IPV4 { "ipv4-unicast" } else { "ipv6-unicast" };
-            out.push_str(&format!("[{p}.afi-safis.{cont}.prefix-limit.config]\nmax-prefixes = {l}\n"));
+            let cont = if f.fam == Family::IPV4 {
+                "ipv4-unicast"
+            } else {
+                "ipv6-unicast"
+            };
+            out.push_str(&format!(
+                "[{p}.afi-safis.{cont}.prefix-limit.config]\nmax-prefixes = {l}\n"
+            ));
         }
     }
 }
 
 fn cfg_toml(cfg: &CfgGen) -> String {
     let mut s = String::new();
-    s.push_str(&format!("[global.config]\nas = {}\nrouter-id = \"{}\"\nport = -1\n", GLOBAL_AS, router_id()));
+    s.push_str(&format!(
+        "[global.config]\nas = {}\nrouter-id = \"{}\"\nport = -1\n",
+        GLOBAL_AS,
+        router_id()
+    ));
     if let Some(m) = &cfg.confed {
         s.push_str(&format!(
             "[global.confederation.config]\nenabled = true\nidentifier = {}\nmember-as-list = [{}]\n",
@@ -448,7 +559,10 @@ fn cfg_toml(cfg: &CfgGen) -> String {
         ));
     }
     for g in &cfg.groups {
-        s.push_str(&format!("[[peer-groups]]\n[peer-groups.config]\npeer-group-name = \"{}\"\n", g.name));
+        s.push_str(&format!(
+            "[[peer-groups]]\n[peer-groups.config]\npeer-group-name = \"{}\"\n",
+            g.name
+        ));
         if g.c.peer_as != 0 {
             s.push_str(&format!("peer-as = {}\n", g.c.peer_as));
         }
@@ -463,7 +577,10 @@ fn cfg_toml(cfg: &CfgGen) -> String {
         }
     }
     for n in &cfg.neighs {
-        s.push_str(&format!("[[neighbors]]\n[neighbors.config]\nneighbor-address = \"{}\"\n", n.addr));
+        s.push_str(&format!(
+            "[[neighbors]]\n[neighbors.config]\nneighbor-address = \"{}\"\n",
+            n.addr
+        ));
         if n.c.peer_as != 0 {
             s.push_str(&format!("peer-as = {}\n", n.c.peer_as));
         }
@@ -492,18 +609,33 @@ fn afisafis_api(c: &Common) -> Vec<api::AfiSafi> {
     c.fams
         .iter()
         .map(|f| api::AfiSafi {
-            config: Some(api::AfiSafiConfig { family: Some(crate::convert::family_to_api(f.fam)), enabled: true }),
+            config: Some(api::AfiSafiConfig {
+                family: Some(crate::convert::family_to_api(f.fam)),
+                enabled: true,
+            }),
             mp_graceful_restart: if f.gr {
-                Some(api::MpGracefulRestart { config: Some(api::MpGracefulRestartConfig { enabled: true }), ..Default::default() })
+                Some(api::MpGracefulRestart {
+                    config: Some(api::MpGracefulRestartConfig { enabled: true }),
+                    ..Default::default()
+                })
             } else {
                 None
             },
             long_lived_graceful_restart: f.llgr.map(|t| api::LongLivedGracefulRestart {
-                config: Some(api::LongLivedGracefulRestartConfig { enabled: true, restart_time: t }),
+                config: Some(api::LongLivedGracefulRestartConfig {
+                    enabled: true,
+                    restart_time: t,
+                }),
                 ..Default::default()
             }),
             add_paths: if f.rx || f.send_max > 0 {
-                Some(api::AddPaths { config: Some(api::AddPathsConfig { receive: f.rx, send_max: f.send_max }), ..Default::default() })
+                Some(api::AddPaths {
+                    config: Some(api::AddPathsConfig {
+                        receive: f.rx,
+                        send_max: f.send_max,
+                    }),
+                    ..Default::default()
+                })
             } else {
                 None
             },
@@ -518,7 +650,13 @@ fn afisafis_api(c: &Common) -> Vec<api::AfiSafi> {
 }
 
 fn timers_api(c: &Common) -> Option<api::Timers> {
-    c.hold.map(|h| api::Timers { config: Some(api::TimersConfig { hold_time: h as u64, ..Default::default() }), ..Default::default() })
+    c.hold.map(|h| api::Timers {
+        config: Some(api::TimersConfig {
+            hold_time: h as u64,
+            ..Default::default()
+        }),
+        ..Default::default()
+    })
 }
 
 fn rr_api(c: &Common) -> Option<api::RouteReflector> {
@@ -533,16 +671,40 @@ fn rr_api(c: &Common) -> Option<api::RouteReflector> {
 }
 
 fn gr_api(c: &Common) -> Option<api::GracefulRestart> {
-    c.gr.map(|(rt, n)| api::GracefulRestart { enabled: true, restart_time: rt as u32, notification_enabled: n, ..Default::default() })
+    c.gr.map(|(rt, n)| api::GracefulRestart {
+        enabled: true,
+        restart_time: rt as u32,
+        notification_enabled: n,
+        ..Default::default()
+    })
 }
 
 fn group_api(g: &GroupGen) -> api::PeerGroup {
     api::PeerGroup {
-        conf: Some(api::PeerGroupConf { peer_group_name: g.name.clone(), peer_asn: g.c.peer_as, local_asn: g.c.local_as, ..Default::default() }),
+        conf: Some(api::PeerGroupConf {
+            peer_group_name: g.name.clone(),
+            peer_asn: g.c.peer_as,
+            local_asn: g.c.local_as,
+            ..Default::default()
+        }),
         timers: timers_api(&g.c),
-        transport: if g.c.passive { Some(api::Transport { passive_mode: true, ..Default::default() }) } else { None },
+        transport: if g.c.passive {
+            Some(api::Transport {
+                passive_mode: true,
+                ..Default::default()
+            })
+        } else {
+            None
+        },
         route_reflector: rr_api(&g.c),
-        route_server: if g.c.rs_client { Some(api::RouteServer { route_server_client: true, secondary_route: false }) } else { None },
+        route_server: if g.c.rs_client {
+            Some(api::RouteServer {
+                route_server_client: true,
+                secondary_route: false,
+            })
+        } else {
+            None
+        },
         graceful_restart: gr_api(&g.c),
         afi_safis: afisafis_api(&g.c),
         ..Default::default()
@@ -560,17 +722,41 @@ fn neigh_api(n: &NeighGen) -> api::Peer {
             ..Default::default()
         }),
         timers: timers_api(&n.c),
-        transport: if n.c.passive { Some(api::Transport { passive_mode: true, ..Default::default() }) } else { None },
+        transport: if n.c.passive {
+            Some(api::Transport {
+                passive_mode: true,
+                ..Default::default()
+            })
+        } else {
+            None
+        },
         route_reflector: rr_api(&n.c),
-        route_server: if n.c.rs_client { Some(api::RouteServer { route_server_client: true, secondary_route: false }) } else { None },
+        route_server: if n.c.rs_client {
+            Some(api::RouteServer {
+                route_server_client: true,
+                secondary_route: false,
+            })
+        } else {
+            None
+        },
         graceful_restart: gr_api(&n.c),
         afi_safis: afisafis_api(&n.c),
         apply_policy: n.export.as_ref().map(|(rej, names)| api::ApplyPolicy {
             export_policy: Some(api::PolicyAssignment {
                 name: n.addr.to_string(),
                 direction: api::PolicyDirection::Export as i32,
-                policies: names.iter().map(|x| api::Policy { name: x.clone(), statements: Vec::new() }).collect(),
-                default_action: if *rej { api::RouteAction::Reject as i32 } else { api::RouteAction::Accept as i32 },
+                policies: names
+                    .iter()
+                    .map(|x| api::Policy {
+                        name: x.clone(),
+                        statements: Vec::new(),
+                    })
+                    .collect(),
+                default_action: if *rej {
+                    api::RouteAction::Reject as i32
+                } else {
+                    api::RouteAction::Accept as i32
+                },
             }),
             import_policy: None,
         }),
@@ -604,7 +790,12 @@ struct Expect {
     hold_from_group: bool,
 }
 
-fn expectation(cfg_confed: &Option<Vec<u32>>, n: Option<&NeighGen>, g: Option<&GroupGen>, addr: &IpAddr) -> Expect {
+fn expectation(
+    cfg_confed: &Option<Vec<u32>>,
+    n: Option<&NeighGen>,
+    g: Option<&GroupGen>,
+    addr: &IpAddr,
+) -> Expect {
     let empty = Common::default();
     let nc = n.map(|x| &x.c).unwrap_or(&empty);
     let gc = g.map(|x| &x.c).unwrap_or(&empty);
@@ -613,18 +804,38 @@ fn expectation(cfg_confed: &Option<Vec<u32>>, n: Option<&NeighGen>, g: Option<&G
         (Some(_), Some(_)) => "static-in-group",
         _ => "dynamic",
     };
-    let peer_as = if nc.peer_as != 0 { nc.peer_as } else { gc.peer_as };
-    let explicit_local = if nc.local_as != 0 { nc.local_as } else { gc.local_as };
-    let base_local = if explicit_local != 0 { explicit_local } else { GLOBAL_AS };
+    let peer_as = if nc.peer_as != 0 {
+        nc.peer_as
+    } else {
+        gc.peer_as
+    };
+    let explicit_local = if nc.local_as != 0 {
+        nc.local_as
+    } else {
+        gc.local_as
+    };
+    let base_local = if explicit_local != 0 {
+        explicit_local
+    } else {
+        GLOBAL_AS
+    };
     let rs = nc.rs_client || gc.rs_client;
     let rr = nc.rr_client || gc.rr_client;
     let members: &[u32] = cfg_confed.as_deref().unwrap_or(&[]);
     let role = if peer_as == 0 {
         None
     } else if rs {
-        if peer_as == base_local { None } else { Some(PeerRole::RsClient) }
+        if peer_as == base_local {
+            None
+        } else {
+            Some(PeerRole::RsClient)
+        }
     } else if peer_as == base_local {
-        Some(if rr { PeerRole::IbgpRrClient } else { PeerRole::Ibgp })
+        Some(if rr {
+            PeerRole::IbgpRrClient
+        } else {
+            PeerRole::Ibgp
+        })
     } else if cfg_confed.is_some() && members.contains(&peer_as) {
         Some(PeerRole::ConfedEbgp)
     } else {
@@ -641,7 +852,14 @@ fn expectation(cfg_confed: &Option<Vec<u32>>, n: Option<&NeighGen>, g: Option<&G
             (Some(CONFED_ID), "confederation-external")
         }
     } else {
-        (Some(base_local), if explicit_local != 0 { "local-as-configured" } else { "global-as" })
+        (
+            Some(base_local),
+            if explicit_local != 0 {
+                "local-as-configured"
+            } else {
+                "global-as"
+            },
+        )
     };
     let hold = match (nc.hold, gc.hold) {
         // a neighbour hold time equal to the built-in default next to a different group
@@ -658,7 +876,11 @@ fn expectation(cfg_confed: &Option<Vec<u32>>, n: Option<&NeighGen>, g: Option<&G
     let mut send_max = BTreeMap::new();
     let mut limits = BTreeMap::new();
     if fams.is_empty() {
-        mp.insert(fid(if addr.is_ipv6() { Family::IPV6 } else { Family::IPV4 }));
+        mp.insert(fid(if addr.is_ipv6() {
+            Family::IPV6
+        } else {
+            Family::IPV4
+        }));
     }
     for f in fams {
         mp.insert(fid(f.fam));
@@ -676,9 +898,20 @@ fn expectation(cfg_confed: &Option<Vec<u32>>, n: Option<&NeighGen>, g: Option<&G
         }
     }
     let gr_of = |c: &Common| -> Option<(u16, bool, BTreeSet<u32>)> {
-        c.gr.map(|(rt, nb)| (rt, nb, c.fams.iter().filter(|f| f.gr).map(|f| fid(f.fam)).collect()))
+        c.gr.map(|(rt, nb)| {
+            (
+                rt,
+                nb,
+                c.fams.iter().filter(|f| f.gr).map(|f| fid(f.fam)).collect(),
+            )
+        })
     };
-    let llgr_of = |c: &Common| -> BTreeMap<u32, u32> { c.fams.iter().filter_map(|f| f.llgr.map(|t| (fid(f.fam), t))).collect() };
+    let llgr_of = |c: &Common| -> BTreeMap<u32, u32> {
+        c.fams
+            .iter()
+            .filter_map(|f| f.llgr.map(|t| (fid(f.fam), t)))
+            .collect()
+    };
     let (gr, llgr) = if own {
         // own family list: GR / LLGR are the neighbour's; when it has none but the group
         // does, the statement does not say whether those are inherited -- not judged
@@ -719,7 +952,16 @@ fn expectation(cfg_confed: &Option<Vec<u32>>, n: Option<&NeighGen>, g: Option<&G
             }
         }
     };
-    let longest_prefix = g.map(|g| g.prefixes.iter().filter(|p| ref_contains(p, addr)).map(|p| p.len).max().unwrap_or(0)).unwrap_or(0);
+    let longest_prefix = g
+        .map(|g| {
+            g.prefixes
+                .iter()
+                .filter(|p| ref_contains(p, addr))
+                .map(|p| p.len)
+                .max()
+                .unwrap_or(0)
+        })
+        .unwrap_or(0);
     Expect {
         kind,
         group: g.map(|x| x.name.clone()),
@@ -785,9 +1027,17 @@ fn fold_open(o: &mut Observed, open: &bgp::Open) {
                     o.addpath.insert(fid(*f), *m);
                 }
             }
-            packet::Capability::GracefulRestart { flags, restart_time, families } => {
+            packet::Capability::GracefulRestart {
+                flags,
+                restart_time,
+                families,
+            } => {
                 if o.gr.is_none() {
-                    o.gr = Some((*flags, *restart_time, families.iter().map(|(f, _)| fid(*f)).collect()));
+                    o.gr = Some((
+                        *flags,
+                        *restart_time,
+                        families.iter().map(|(f, _)| fid(*f)).collect(),
+                    ));
                 }
             }
             packet::Capability::LongLivedGracefulRestart(v) => {
@@ -808,67 +1058,145 @@ fn diff(e: &Expect, o: &Observed) -> Vec<(String, String)> {
     let mut d: Vec<(String, String)> = Vec::new();
     if let (Some(want), Some(got)) = (e.role, o.role) {
         if want != got {
-            d.push((format!("role/{:?}-configured-{:?}-derived", want, got), format!("role {:?}, configuration means {:?}", got, want)));
+            d.push((
+                format!("role/{:?}-configured-{:?}-derived", want, got),
+                format!("role {:?}, configuration means {:?}", got, want),
+            ));
         }
     }
     if let Some(want) = e.local_as {
         if o.local_as_session != want {
-            d.push((format!("local-as/{}", e.local_as_why), format!("session local AS {}, configuration means {}", o.local_as_session, want)));
+            d.push((
+                format!("local-as/{}", e.local_as_why),
+                format!(
+                    "session local AS {}, configuration means {}",
+                    o.local_as_session, want
+                ),
+            ));
         }
         if o.open_seen && (o.open_as != want || o.as4 != Some(want)) {
             d.push((
                 format!("open-as/{}", e.local_as_why),
-                format!("OPEN carries AS {} (4-octet capability {:?}), configuration means {}", o.open_as, o.as4, want),
+                format!(
+                    "OPEN carries AS {} (4-octet capability {:?}), configuration means {}",
+                    o.open_as, o.as4, want
+                ),
             ));
         }
     }
     if o.expected_as != e.peer_as {
-        d.push(("expected-as".into(), format!("expected remote AS {}, configuration means {}", o.expected_as, e.peer_as)));
+        d.push((
+            "expected-as".into(),
+            format!(
+                "expected remote AS {}, configuration means {}",
+                o.expected_as, e.peer_as
+            ),
+        ));
     }
     if o.confed_id != e.confed_id {
-        d.push(("confederation-id".into(), format!("session confederation id {}, configured {}", o.confed_id, e.confed_id)));
+        d.push((
+            "confederation-id".into(),
+            format!(
+                "session confederation id {}, configured {}",
+                o.confed_id, e.confed_id
+            ),
+        ));
     }
     if let Some(want) = e.cluster {
         if o.cluster != want {
-            d.push(("cluster-id".into(), format!("session cluster id {:?}, configuration means {:?}", o.cluster, want)));
+            d.push((
+                "cluster-id".into(),
+                format!(
+                    "session cluster id {:?}, configuration means {:?}",
+                    o.cluster, want
+                ),
+            ));
         }
     }
     if o.limits != e.limits {
-        d.push(("prefix-limits".into(), format!("session prefix limits {:?}, configured {:?}", o.limits, e.limits)));
+        d.push((
+            "prefix-limits".into(),
+            format!(
+                "session prefix limits {:?}, configured {:?}",
+                o.limits, e.limits
+            ),
+        ));
     }
     if o.export != e.export {
-        d.push(("export-policy".into(), format!("session export policy {:?}, configured {:?}", o.export, e.export)));
+        d.push((
+            "export-policy".into(),
+            format!(
+                "session export policy {:?}, configured {:?}",
+                o.export, e.export
+            ),
+        ));
     }
     if o.send_max != e.send_max {
-        d.push(("addpath-send-max".into(), format!("add-path send-max {:?}, configured {:?}", o.send_max, e.send_max)));
+        d.push((
+            "addpath-send-max".into(),
+            format!(
+                "add-path send-max {:?}, configured {:?}",
+                o.send_max, e.send_max
+            ),
+        ));
     }
     if o.open_seen {
         if let Some(h) = e.hold {
             if o.open_hold != h {
-                d.push(("hold-time".into(), format!("OPEN hold time {}, configuration means {}", o.open_hold, h)));
+                d.push((
+                    "hold-time".into(),
+                    format!("OPEN hold time {}, configuration means {}", o.open_hold, h),
+                ));
             }
         }
         if o.mp != e.mp {
-            d.push(("families".into(), format!("OPEN families {:x?}, configured {:x?}", o.mp, e.mp)));
+            d.push((
+                "families".into(),
+                format!("OPEN families {:x?}, configured {:x?}", o.mp, e.mp),
+            ));
         }
         if o.addpath != e.addpath {
-            d.push(("addpath".into(), format!("OPEN add-path {:x?}, configured {:x?}", o.addpath, e.addpath)));
+            d.push((
+                "addpath".into(),
+                format!(
+                    "OPEN add-path {:x?}, configured {:x?}",
+                    o.addpath, e.addpath
+                ),
+            ));
         }
         if let Some(want) = &e.gr {
-            let got = o.gr.as_ref().map(|(fl, rt, f)| (*rt, fl & 0x4 != 0, f.clone()));
+            let got =
+                o.gr.as_ref()
+                    .map(|(fl, rt, f)| (*rt, fl & 0x4 != 0, f.clone()));
             if &got != want {
-                d.push(("graceful-restart".into(), format!("OPEN GR (restart time, N bit, families) {:x?}, configured {:x?}", got, want)));
+                d.push((
+                    "graceful-restart".into(),
+                    format!(
+                        "OPEN GR (restart time, N bit, families) {:x?}, configured {:x?}",
+                        got, want
+                    ),
+                ));
             }
             if let Some((fl, _, _)) = &o.gr {
                 if fl & 0x8 != 0 {
-                    d.push(("graceful-restart/r-bit".into(), "OPEN GR capability has the R bit although the speaker is not restarting".into()));
+                    d.push((
+                        "graceful-restart/r-bit".into(),
+                        "OPEN GR capability has the R bit although the speaker is not restarting"
+                            .into(),
+                    ));
                 }
             }
         }
         if let Some(want) = &e.llgr {
             let got = o.llgr.clone().unwrap_or_default();
             if &got != want {
-                d.push(("llgr".into(), format!("OPEN LLGR (family -> stale time) {:x?}, configured {:x?}", got, want)));
+                d.push((
+                    "llgr".into(),
+                    format!(
+                        "OPEN LLGR (family -> stale time) {:x?}, configured {:x?}",
+                        got, want
+                    ),
+                ));
             }
         }
     }
@@ -877,7 +1205,10 @@ fn diff(e: &Expect, o: &Observed) -> Vec<(String, String)> {
     if has(&d, "local-as/") {
         // the wrong local AS is what goes into the OPEN, and (iBGP = same AS) decides the role
         let confed_ibgp = has(&d, "local-as/ibgp-in-confederation");
-        d.retain(|(f, _)| !f.starts_with("open-as/") && !(confed_ibgp && (f.starts_with("role/") || f == "cluster-id")));
+        d.retain(|(f, _)| {
+            !f.starts_with("open-as/")
+                && !(confed_ibgp && (f.starts_with("role/") || f == "cluster-id"))
+        });
     }
     if has(&d, "role/") {
         d.retain(|(f, _)| f != "cluster-id");
@@ -965,14 +1296,26 @@ fn add_policies(g: &mut Global) -> Result<(), String> {
     for p in POLICIES {
         let stmt = format!("{p}-stmt");
         g.ptable
-            .add_statement(&stmt, Vec::new(), Some(table::Disposition::Accept), table::Actions::default())
+            .add_statement(
+                &stmt,
+                Vec::new(),
+                Some(table::Disposition::Accept),
+                table::Actions::default(),
+            )
             .map_err(|e| format!("add_statement: {:?}", e))?;
-        g.ptable.add_policy(p, vec![stmt]).map_err(|e| format!("add_policy: {:?}", e))?;
+        g.ptable
+            .add_policy(p, vec![stmt])
+            .map_err(|e| format!("add_policy: {:?}", e))?;
     }
     Ok(())
 }
 
-async fn build_world<'a>(cfg: &CfgGen, rep: &'a mut Report, trace: bool, index: u64) -> Result<World<'a>, String> {
+async fn build_world<'a>(
+    cfg: &CfgGen,
+    rep: &'a mut Report,
+    trace: bool,
+    index: u64,
+) -> Result<World<'a>, String> {
     let (active_tx, active_rx) = mpsc::unbounded_channel::<TcpStream>();
     let (ktx, _krx) = mpsc::unbounded_channel();
     let (btx, _brx) = mpsc::unbounded_channel();
@@ -982,13 +1325,22 @@ async fn build_world<'a>(cfg: &CfgGen, rep: &'a mut Report, trace: bool, index: 
     let (global, svc) = match cfg.loader {
         Loader::Grpc => {
             let global: GlobalHandle = Arc::new(tokio::sync::RwLock::new(Global::new(ktx, btx)));
-            let svc = GrpcService::new(Arc::new(tokio::sync::Notify::new()), active_tx.clone(), global.clone(), tables.clone());
+            let svc = GrpcService::new(
+                Arc::new(tokio::sync::Notify::new()),
+                active_tx.clone(),
+                global.clone(),
+                tables.clone(),
+            );
             svc.start_bgp(tonic::Request::new(api::StartBgpRequest {
                 global: Some(api::Global {
                     asn: GLOBAL_AS,
                     router_id: router_id().to_string(),
                     listen_port: -1,
-                    confederation: cfg.confed.as_ref().map(|m| api::Confederation { enabled: true, identifier: CONFED_ID, member_as_list: m.clone() }),
+                    confederation: cfg.confed.as_ref().map(|m| api::Confederation {
+                        enabled: true,
+                        identifier: CONFED_ID,
+                        member_as_list: m.clone(),
+                    }),
                     ..Default::default()
                 }),
             }))
@@ -996,29 +1348,40 @@ async fn build_world<'a>(cfg: &CfgGen, rep: &'a mut Report, trace: bool, index: 
             .map_err(|e| format!("start_bgp: {}", e))?;
             add_policies(&mut *global.write().await)?;
             for g in &cfg.groups {
-                svc.add_peer_group(tonic::Request::new(api::AddPeerGroupRequest { peer_group: Some(group_api(g)) }))
-                    .await
-                    .map_err(|e| format!("add_peer_group: {}", e))?;
+                svc.add_peer_group(tonic::Request::new(api::AddPeerGroupRequest {
+                    peer_group: Some(group_api(g)),
+                }))
+                .await
+                .map_err(|e| format!("add_peer_group: {}", e))?;
                 for p in &g.prefixes {
                     svc.add_dynamic_neighbor(tonic::Request::new(api::AddDynamicNeighborRequest {
-                        dynamic_neighbor: Some(api::DynamicNeighbor { prefix: p.text.clone(), peer_group: g.name.clone() }),
+                        dynamic_neighbor: Some(api::DynamicNeighbor {
+                            prefix: p.text.clone(),
+                            peer_group: g.name.clone(),
+                        }),
                     }))
                     .await
                     .map_err(|e| format!("add_dynamic_neighbor {}: {}", p.text, e))?;
                 }
             }
             for n in &cfg.neighs {
-                svc.add_peer(tonic::Request::new(api::AddPeerRequest { peer: Some(neigh_api(n)) })).await.map_err(|e| format!("add_peer {}: {}", n.addr, e))?;
+                svc.add_peer(tonic::Request::new(api::AddPeerRequest {
+                    peer: Some(neigh_api(n)),
+                }))
+                .await
+                .map_err(|e| format!("add_peer {}: {}", n.addr, e))?;
                 src.insert(n.addr, "grpc");
             }
             (global, svc)
         }
         Loader::Toml => {
             // what main() + Global::serve do with a configuration file
-            let bgp: config::BgpConfig = toml::from_str(&text).map_err(|e| format!("toml: {}", e))?;
+            let bgp: config::BgpConfig =
+                toml::from_str(&text).map_err(|e| format!("toml: {}", e))?;
             bgp.validate().map_err(|e| format!("validate: {}", e))?;
             let mut g = Global::new(ktx, btx);
-            g.apply_config(tables.clone(), &bgp).map_err(|e| format!("apply_config: {:?}", e))?;
+            g.apply_config(tables.clone(), &bgp)
+                .map_err(|e| format!("apply_config: {:?}", e))?;
             add_policies(&mut g)?;
             if let Some(neighbors) = bgp.dynamic_neighbors.as_ref() {
                 for n in neighbors {
@@ -1026,29 +1389,42 @@ async fn build_world<'a>(cfg: &CfgGen, rep: &'a mut Report, trace: bool, index: 
                         && let Ok(prefix) = packet::IpNet::from_str(prefix)
                         && let Some(name) = n.config.as_ref().and_then(|x| x.peer_group.as_ref())
                     {
-                        g.peer_group.entry(name.to_string()).and_modify(|e| e.dynamic_peers.push(DynamicPeer { prefix }));
+                        g.peer_group
+                            .entry(name.to_string())
+                            .and_modify(|e| e.dynamic_peers.push(DynamicPeer { prefix }));
                     }
                 }
             }
             if let Some(peers) = bgp.neighbors.as_ref() {
                 for p in peers {
-                    let mut params = PeerParams::try_from(p).map_err(|e| format!("PeerParams::try_from: {}", e))?;
+                    let mut params = PeerParams::try_from(p)
+                        .map_err(|e| format!("PeerParams::try_from: {}", e))?;
                     let pg = p.config.as_ref().and_then(|c| c.peer_group.clone());
                     if let Some(pg) = pg.as_deref().and_then(|n| g.peer_group.get(n)) {
                         params.apply_peer_group(pg);
                     }
                     let a = params.remote_addr;
-                    g.add_peer(params, Some(active_tx.clone())).map_err(|e| format!("add_peer: {:?}", e))?;
+                    g.add_peer(params, Some(active_tx.clone()))
+                        .map_err(|e| format!("add_peer: {:?}", e))?;
                     src.insert(a, "toml");
                 }
             }
             let global: GlobalHandle = Arc::new(tokio::sync::RwLock::new(g));
-            let svc = GrpcService::new(Arc::new(tokio::sync::Notify::new()), active_tx.clone(), global.clone(), tables.clone());
+            let svc = GrpcService::new(
+                Arc::new(tokio::sync::Notify::new()),
+                active_tx.clone(),
+                global.clone(),
+                tables.clone(),
+            );
             (global, svc)
         }
     };
-    let l4 = crate::verif_hooks::bind_retry(SocketAddr::new(IpAddr::V4(Ipv4Addr::LOCALHOST), 0)).await.map_err(|e| format!("bind v4 listener: {}", e))?;
-    let l6 = crate::verif_hooks::bind_retry(SocketAddr::new(IpAddr::V6(Ipv6Addr::LOCALHOST), 0)).await.ok();
+    let l4 = crate::verif_hooks::bind_retry(SocketAddr::new(IpAddr::V4(Ipv4Addr::LOCALHOST), 0))
+        .await
+        .map_err(|e| format!("bind v4 listener: {}", e))?;
+    let l6 = crate::verif_hooks::bind_retry(SocketAddr::new(IpAddr::V6(Ipv6Addr::LOCALHOST), 0))
+        .await
+        .ok();
     Ok(World {
         rep,
         loader: cfg.loader,
@@ -1090,7 +1466,13 @@ impl<'a> World<'a> {
         let mut v = vec![
             ("loader", Json::s(self.loader_name())),
             ("configuration_index", Json::Int(self.index as i128)),
-            ("replay", Json::s(format!("VERIF_SEED=<shard seed> VERIF_TIER=<tier> VERIF_PART=accept VERIF_ONLY={} VERIF_TRACE=1 <e2 test binary> event::verif::c16::run --exact --nocapture", self.index))),
+            (
+                "replay",
+                Json::s(format!(
+                    "VERIF_SEED=<shard seed> VERIF_TIER=<tier> VERIF_PART=accept VERIF_ONLY={} VERIF_TRACE=1 <e2 test binary> event::verif::c16::run --exact --nocapture",
+                    self.index
+                )),
+            ),
             ("configuration", Json::s(self.cfg_text.clone())),
             ("history", Json::strs(self.history.iter().cloned())),
         ];
@@ -1110,7 +1492,12 @@ impl<'a> World<'a> {
     }
 
     fn abort(&mut self, why: &str) {
-        eprintln!("[C16] history abandoned (configuration index {}): {}; last steps: {:?}", self.index, why, self.history.iter().rev().take(5).collect::<Vec<_>>());
+        eprintln!(
+            "[C16] history abandoned (configuration index {}): {}; last steps: {:?}",
+            self.index,
+            why,
+            self.history.iter().rev().take(5).collect::<Vec<_>>()
+        );
         self.rep.inconclusive(why);
         self.aborted = true;
     }
@@ -1144,7 +1531,11 @@ impl<'a> World<'a> {
         self.conns[i].client = None;
         if let Some((loc, msg)) = panic {
             let w = self.witness(vec![("panic", Json::s(msg.clone()))]);
-            self.rep.violation(&format!("C16/panic/{}:{}", loc, panic_class(&msg)), &format!("PeerSession::run panicked: {}", msg), w);
+            self.rep.violation(
+                &format!("C16/panic/{}:{}", loc, panic_class(&msg)),
+                &format!("PeerSession::run panicked: {}", msg),
+                w,
+            );
         }
     }
 
@@ -1171,7 +1562,9 @@ impl<'a> World<'a> {
     }
 
     fn live(&self, addr: &IpAddr) -> Vec<usize> {
-        (0..self.conns.len()).filter(|i| !self.conns[*i].done && &self.conns[*i].addr == addr).collect()
+        (0..self.conns.len())
+            .filter(|i| !self.conns[*i].done && &self.conns[*i].addr == addr)
+            .collect()
     }
 
     fn containing(&self, addr: &IpAddr) -> Vec<(usize, PrefixGen)> {
@@ -1200,9 +1593,15 @@ impl<'a> World<'a> {
             }
             if !cont.is_empty() {
                 // the statement's "or lies inside a dynamic prefix" read literally would admit it
-                return Adm::Unjudged("configured-neighbour-refusable-but-inside-dynamic-prefix".into());
+                return Adm::Unjudged(
+                    "configured-neighbour-refusable-but-inside-dynamic-prefix".into(),
+                );
             }
-            return Adm::Refuse(if n.admin_down { "admin-down".into() } else { "duplicate-direction".into() });
+            return Adm::Refuse(if n.admin_down {
+                "admin-down".into()
+            } else {
+                "duplicate-direction".into()
+            });
         }
         if !live.is_empty() {
             // an instantiated dynamic neighbour (or the connections of a deleted one)
@@ -1216,8 +1615,20 @@ impl<'a> World<'a> {
         if cont.is_empty() {
             return Adm::Refuse("not-configured".into());
         }
-        let rank = |c: &str| if c.ends_with("clean") { 0 } else if c.ends_with("dirty-host-bits") { 1 } else { 2 };
-        let best = cont.iter().map(|(_, p)| prefix_class(p)).min_by_key(|c| (rank(c), c.clone())).unwrap();
+        let rank = |c: &str| {
+            if c.ends_with("clean") {
+                0
+            } else if c.ends_with("dirty-host-bits") {
+                1
+            } else {
+                2
+            }
+        };
+        let best = cont
+            .iter()
+            .map(|(_, p)| prefix_class(p))
+            .min_by_key(|c| (rank(c), c.clone()))
+            .unwrap();
         Adm::Accept(format!("dynamic-prefix/{}", best))
     }
 
@@ -1226,12 +1637,26 @@ impl<'a> World<'a> {
     async fn make_pair(&self, addr: IpAddr, role: Role) -> Result<(TcpStream, TcpStream), String> {
         match role {
             Role::Passive => {
-                let l = if addr.is_ipv4() { &self.l4 } else { self.l6.as_ref().ok_or("no ::1 listener")? };
+                let l = if addr.is_ipv4() {
+                    &self.l4
+                } else {
+                    self.l6.as_ref().ok_or("no ::1 listener")?
+                };
                 let la = l.local_addr().map_err(|e| e.to_string())?;
                 let mut last = String::new();
                 for _ in 0..200 {
-                    let sock = if addr.is_ipv4() { TcpSocket::new_v4() } else { TcpSocket::new_v6() }.map_err(|e| e.to_string())?;
-                    let shortage = |e: &std::io::Error| matches!(e.kind(), std::io::ErrorKind::AddrInUse | std::io::ErrorKind::AddrNotAvailable);
+                    let sock = if addr.is_ipv4() {
+                        TcpSocket::new_v4()
+                    } else {
+                        TcpSocket::new_v6()
+                    }
+                    .map_err(|e| e.to_string())?;
+                    let shortage = |e: &std::io::Error| {
+                        matches!(
+                            e.kind(),
+                            std::io::ErrorKind::AddrInUse | std::io::ErrorKind::AddrNotAvailable
+                        )
+                    };
                     if let Err(e) = sock.bind(SocketAddr::new(addr, 0)) {
                         if shortage(&e) {
                             last = format!("bind {}: {}", addr, e);
@@ -1261,7 +1686,11 @@ impl<'a> World<'a> {
                     crate::verif_hooks::no_time_wait(&c);
                     crate::verif_hooks::no_time_wait(&s);
                     if from.ip() != addr {
-                        return Err(format!("accepted a connection from {} instead of {}", from.ip(), addr));
+                        return Err(format!(
+                            "accepted a connection from {} instead of {}",
+                            from.ip(),
+                            addr
+                        ));
                     }
                     return Ok((c, s));
                 }
@@ -1269,9 +1698,13 @@ impl<'a> World<'a> {
             }
             Role::Active => {
                 // what enable_active_connect produces: a socket connected TO the neighbour's address
-                let l = crate::verif_hooks::bind_retry(SocketAddr::new(addr, 0)).await.map_err(|e| format!("bind listener {}: {}", addr, e))?;
+                let l = crate::verif_hooks::bind_retry(SocketAddr::new(addr, 0))
+                    .await
+                    .map_err(|e| format!("bind listener {}: {}", addr, e))?;
                 let la = l.local_addr().map_err(|e| e.to_string())?;
-                let (d, c) = tokio::join!(crate::verif_hooks::connect_retry(la), async { tokio::time::timeout(Duration::from_secs(110), l.accept()).await });
+                let (d, c) = tokio::join!(crate::verif_hooks::connect_retry(la), async {
+                    tokio::time::timeout(Duration::from_secs(110), l.accept()).await
+                });
                 let d = d.map_err(|e| format!("connect to {}: {}", addr, e))?;
                 let (c, _) = match c {
                     Ok(Ok(x)) => x,
@@ -1294,7 +1727,9 @@ impl<'a> World<'a> {
                 Err(n) => return Rd::Bad(format!("{:?}", n)),
             }
             let c = &mut self.conns[i];
-            let Some(client) = c.client.as_mut() else { return Rd::Eof };
+            let Some(client) = c.client.as_mut() else {
+                return Rd::Eof;
+            };
             match tokio::time::timeout(WATCHDOG, client.readable()).await {
                 Err(_) => return Rd::Timeout,
                 Ok(Err(_)) => return Rd::Reset,
@@ -1337,12 +1772,23 @@ enum Drive {
 
 impl<'a> World<'a> {
     /// one connection handed to accept_connection; `judged` = the admission clause applies
-    async fn op_connect(&mut self, addr: IpAddr, role: Role, drive: Drive, pre: Option<(TcpStream, TcpStream)>, judged: bool) {
+    async fn op_connect(
+        &mut self,
+        addr: IpAddr,
+        role: Role,
+        drive: Drive,
+        pre: Option<(TcpStream, TcpStream)>,
+        judged: bool,
+    ) {
         for i in self.refresh() {
             let a = self.conns[i].addr;
             self.check_cleanup(a, i).await;
         }
-        let adm = if judged { self.admission(&addr, role) } else { Adm::Unjudged("arrived-before-the-neighbour-was-replaced".into()) };
+        let adm = if judged {
+            self.admission(&addr, role)
+        } else {
+            Adm::Unjudged("arrived-before-the-neighbour-was-replaced".into())
+        };
         let pair = match pre {
             Some(p) => Ok(p),
             None => self.make_pair(addr, role).await,
@@ -1350,7 +1796,10 @@ impl<'a> World<'a> {
         let (mut client, server) = match pair {
             Ok(p) => p,
             Err(e) => {
-                self.abort(&format!("harness: cannot build a loopback connection: {}", e));
+                self.abort(&format!(
+                    "harness: cannot build a loopback connection: {}",
+                    e
+                ));
                 return;
             }
         };
@@ -1361,8 +1810,13 @@ impl<'a> World<'a> {
         let res = accept_connection(&self.global, &self.tables, server, role).await;
         self.rep.eval();
         self.rep.count("connections");
-        self.rep.count(if role == Role::Active { "role:active" } else { "role:passive" });
-        self.rep.count(if addr.is_ipv6() { "addr:v6" } else { "addr:v4" });
+        self.rep.count(if role == Role::Active {
+            "role:active"
+        } else {
+            "role:passive"
+        });
+        self.rep
+            .count(if addr.is_ipv6() { "addr:v6" } else { "addr:v4" });
         let got = res.is_some();
         self.log(format!(
             "connect #{} from {} role={} -> {}",
@@ -1374,13 +1828,21 @@ impl<'a> World<'a> {
         let mut skip_setup = false;
         match &adm {
             Adm::Accept(why) => {
-                self.rep.count(&format!("admission:expect-accept:{}", why.split('/').next().unwrap_or("")));
+                self.rep.count(&format!(
+                    "admission:expect-accept:{}",
+                    why.split('/').next().unwrap_or("")
+                ));
                 if why.starts_with("dynamic-prefix") {
-                    self.rep.count(&format!("prefix-class:{}", &why["dynamic-prefix/".len()..]));
+                    self.rep
+                        .count(&format!("prefix-class:{}", &why["dynamic-prefix/".len()..]));
                 }
                 self.rep.nontrivial(self.case_hash());
                 if !got {
-                    let w = self.witness(vec![("address", Json::s(addr.to_string())), ("role", Json::s(role_name(role))), ("expected", Json::s(format!("accept: {}", why)))]);
+                    let w = self.witness(vec![
+                        ("address", Json::s(addr.to_string())),
+                        ("role", Json::s(role_name(role))),
+                        ("expected", Json::s(format!("accept: {}", why))),
+                    ]);
                     self.rep.violation(
                         &format!("C16/admission/expected-accept/{}", why),
                         "a connection the statement admits (configured, up, no connection in that direction / inside a dynamic-neighbour prefix) was refused",
@@ -1391,14 +1853,21 @@ impl<'a> World<'a> {
             Adm::Refuse(why) => {
                 self.rep.count(&format!("admission:expect-refuse:{}", why));
                 if why == "duplicate-direction" {
-                    self.rep.count(&format!("admission:expect-refuse:duplicate-direction:{}", role_name(role)));
+                    self.rep.count(&format!(
+                        "admission:expect-refuse:duplicate-direction:{}",
+                        role_name(role)
+                    ));
                 }
                 if why != "not-configured" || !self.groups.iter().all(|g| g.prefixes.is_empty()) {
                     self.rep.nontrivial(self.case_hash());
                 }
                 if got {
                     skip_setup = true;
-                    let w = self.witness(vec![("address", Json::s(addr.to_string())), ("role", Json::s(role_name(role))), ("expected", Json::s(format!("refuse: {}", why)))]);
+                    let w = self.witness(vec![
+                        ("address", Json::s(addr.to_string())),
+                        ("role", Json::s(role_name(role))),
+                        ("expected", Json::s(format!("refuse: {}", why))),
+                    ]);
                     let sig = match self.probe_tag {
                         Some(t) => format!("C16/admission/expected-refuse/{}/{}", why, t),
                         None => format!("C16/admission/expected-refuse/{}", why),
@@ -1434,8 +1903,15 @@ impl<'a> World<'a> {
                     } else {
                         "fragment"
                     };
-                    let w = self.witness(vec![("address", Json::s(addr.to_string())), ("bytes", Json::s(hex(&bytes)))]);
-                    self.rep.violation(&format!("C16/refused-bytes/{}", ty), "a refused connection received bytes before it was closed", w);
+                    let w = self.witness(vec![
+                        ("address", Json::s(addr.to_string())),
+                        ("bytes", Json::s(hex(&bytes))),
+                    ]);
+                    self.rep.violation(
+                        &format!("C16/refused-bytes/{}", ty),
+                        "a refused connection received bytes before it was closed",
+                        w,
+                    );
                 } else {
                     self.rep.count(&format!("refused:zero-bytes-then-{}", how));
                 }
@@ -1444,13 +1920,33 @@ impl<'a> World<'a> {
                 for s in &sib {
                     self.conns[*s].had_sibling = true;
                 }
-                self.after_accept(session, client, addr, role, drive, is_static, !sib.is_empty(), skip_setup).await;
+                self.after_accept(
+                    session,
+                    client,
+                    addr,
+                    role,
+                    drive,
+                    is_static,
+                    !sib.is_empty(),
+                    skip_setup,
+                )
+                .await;
             }
         }
     }
 
     #[allow(clippy::too_many_arguments)]
-    async fn after_accept(&mut self, session: PeerSession, client: TcpStream, addr: IpAddr, role: Role, drive: Drive, is_static: bool, had_sibling: bool, skip_setup: bool) {
+    async fn after_accept(
+        &mut self,
+        session: PeerSession,
+        client: TcpStream,
+        addr: IpAddr,
+        role: Role,
+        drive: Drive,
+        is_static: bool,
+        had_sibling: bool,
+        skip_setup: bool,
+    ) {
         crate::verif_hooks::no_time_wait(&client);
         // ---- what the session was set up with
         let mut obs = Observed {
@@ -1458,12 +1954,17 @@ impl<'a> World<'a> {
             local_as_session: session.export_ctx.local_asn,
             confed_id: session.export_ctx.confederation_id,
             cluster: session.cluster_id,
-            limits: session.prefix_counters.iter().map(|(f, (max, _))| (fid(*f), *max)).collect(),
-            export: session
-                .state
-                .export_policy
-                .load_full()
-                .map(|a| (a.disposition == table::Disposition::Reject, a.policies.iter().map(|p| p.name.to_string()).collect())),
+            limits: session
+                .prefix_counters
+                .iter()
+                .map(|(f, (max, _))| (fid(*f), *max))
+                .collect(),
+            export: session.state.export_policy.load_full().map(|a| {
+                (
+                    a.disposition == table::Disposition::Reject,
+                    a.policies.iter().map(|p| p.name.to_string()).collect(),
+                )
+            }),
             ..Default::default()
         };
         {
@@ -1472,7 +1973,12 @@ impl<'a> World<'a> {
                 obs.expected_as = p.config.expected_remote_asn;
                 let ctx = p.context.lock().unwrap();
                 let arb = ctx.conn_arbiter.lock().unwrap();
-                obs.send_max = arb.fsm().configured_send_max().iter().map(|(f, v)| (fid(*f), *v)).collect();
+                obs.send_max = arb
+                    .fsm()
+                    .configured_send_max()
+                    .iter()
+                    .map(|(f, v)| (fid(*f), *v))
+                    .collect();
             }
         }
         // ---- run it the way Global::serve does
@@ -1481,7 +1987,9 @@ impl<'a> World<'a> {
         let g2 = self.global.clone();
         let atx = self.active_tx.clone();
         let jh = tokio::spawn(async move {
-            let r = std::panic::AssertUnwindSafe(session.run(g2, atx)).catch_unwind().await;
+            let r = std::panic::AssertUnwindSafe(session.run(g2, atx))
+                .catch_unwind()
+                .await;
             let _ = done_tx.send(if r.is_err() { Some(take_panic()) } else { None });
         });
         match role {
@@ -1522,7 +2030,11 @@ impl<'a> World<'a> {
             }
             Rd::Msg(_) => {
                 let w = self.witness(vec![("address", Json::s(addr.to_string()))]);
-                self.rep.violation("C16/setup/first-message-not-open", "an accepted session's first message is not an OPEN", w);
+                self.rep.violation(
+                    "C16/setup/first-message-not-open",
+                    "an accepted session's first message is not an OPEN",
+                    w,
+                );
             }
             Rd::Timeout => {
                 self.abort("watchdog: an accepted session did not emit its OPEN");
@@ -1535,19 +2047,39 @@ impl<'a> World<'a> {
                 return;
             }
             Rd::Bad(e) => {
-                let w = self.witness(vec![("address", Json::s(addr.to_string())), ("decode", Json::s(e))]);
-                self.rep.violation("C16/setup/open-undecodable", "the OPEN an accepted session emits does not decode", w);
+                let w = self.witness(vec![
+                    ("address", Json::s(addr.to_string())),
+                    ("decode", Json::s(e)),
+                ]);
+                self.rep.violation(
+                    "C16/setup/open-undecodable",
+                    "the OPEN an accepted session emits does not decode",
+                    w,
+                );
                 return;
             }
         }
         // ---- compare with the configuration
         let cands: Vec<Expect> = if let Some(n) = self.statics.get(&addr) {
-            let g = n.group.as_ref().and_then(|name| self.groups.iter().find(|g| &g.name == name));
+            let g = n
+                .group
+                .as_ref()
+                .and_then(|name| self.groups.iter().find(|g| &g.name == name));
             vec![expectation(&self.confed, Some(n), g, &addr)]
-        } else if let Some(gname) = self.live(&addr).into_iter().filter(|i| *i != id && self.conns[*i].dynamic).find_map(|i| self.conns[i].group.clone()) {
+        } else if let Some(gname) = self
+            .live(&addr)
+            .into_iter()
+            .filter(|i| *i != id && self.conns[*i].dynamic)
+            .find_map(|i| self.conns[i].group.clone())
+        {
             // a further connection of an already instantiated dynamic neighbour: it is that neighbour
-            self.rep.count("setup:second-connection-of-dynamic-neighbour");
-            self.groups.iter().filter(|g| g.name == gname).map(|g| expectation(&self.confed, None, Some(g), &addr)).collect()
+            self.rep
+                .count("setup:second-connection-of-dynamic-neighbour");
+            self.groups
+                .iter()
+                .filter(|g| g.name == gname)
+                .map(|g| expectation(&self.confed, None, Some(g), &addr))
+                .collect()
         } else {
             let mut seen = BTreeSet::new();
             self.containing(&addr)
@@ -1566,12 +2098,28 @@ impl<'a> World<'a> {
         // group) than a single add-path difference, so that one wrong detail does not make
         // another group look closer.
         let distance = |e: &Expect| -> usize {
-            diff(e, &obs).iter().map(|(f, _)| if f.starts_with("addpath") { 1 } else if f == "expected-as" { 100 } else { 10 }).sum()
+            diff(e, &obs)
+                .iter()
+                .map(|(f, _)| {
+                    if f.starts_with("addpath") {
+                        1
+                    } else if f == "expected-as" {
+                        100
+                    } else {
+                        10
+                    }
+                })
+                .sum()
         };
         let best = cands.iter().min_by_key(|e| distance(e)).unwrap().clone();
         let diffs = diff(&best, &obs);
         self.rep.count(&format!("setup:judged:{}", best.kind));
-        self.rep.count(&format!("setup:role:{}", best.role.map(|r| format!("{:?}", r)).unwrap_or_else(|| "unjudged".into())));
+        self.rep.count(&format!(
+            "setup:role:{}",
+            best.role
+                .map(|r| format!("{:?}", r))
+                .unwrap_or_else(|| "unjudged".into())
+        ));
         if best.kind != "static" {
             self.rep.nontrivial(self.case_hash() ^ 0x5e7);
         }
@@ -1596,7 +2144,14 @@ impl<'a> World<'a> {
         if self.confed.is_some() {
             self.rep.count("setup:in-confederation");
         }
-        for (what, n) in [("role", best.role.is_none()), ("local-as", best.local_as.is_none()), ("hold-time", best.hold.is_none()), ("gr", best.gr.is_none()), ("llgr", best.llgr.is_none()), ("cluster-id", best.cluster.is_none())] {
+        for (what, n) in [
+            ("role", best.role.is_none()),
+            ("local-as", best.local_as.is_none()),
+            ("hold-time", best.hold.is_none()),
+            ("gr", best.gr.is_none()),
+            ("llgr", best.llgr.is_none()),
+            ("cluster-id", best.cluster.is_none()),
+        ] {
             if n {
                 self.rep.count(&format!("unjudged:setup:{}", what));
             }
@@ -1604,25 +2159,47 @@ impl<'a> World<'a> {
         if cands.len() > 1 {
             self.rep.count("overlap:several-groups-contain-the-address");
             let maxlen = cands.iter().map(|c| c.longest_prefix).max().unwrap_or(0);
-            self.rep.count(if best.longest_prefix == maxlen { "overlap:group-of-longest-prefix" } else { "overlap:group-of-shorter-prefix" });
+            self.rep.count(if best.longest_prefix == maxlen {
+                "overlap:group-of-longest-prefix"
+            } else {
+                "overlap:group-of-shorter-prefix"
+            });
         }
-        let tag = if best.kind == "dynamic" { self.loader_name() } else { self.src.get(&addr).copied().unwrap_or("?") };
+        let tag = if best.kind == "dynamic" {
+            self.loader_name()
+        } else {
+            self.src.get(&addr).copied().unwrap_or("?")
+        };
         for (field, detail) in &diffs {
             let w = self.witness(vec![
                 ("address", Json::s(addr.to_string())),
                 ("role", Json::s(role_name(role))),
                 ("difference", Json::s(detail.clone())),
-                ("all_differences", Json::strs(diffs.iter().map(|d| d.1.clone()))),
+                (
+                    "all_differences",
+                    Json::strs(diffs.iter().map(|d| d.1.clone())),
+                ),
                 ("expected", Json::s(format!("{:x?}", best))),
                 ("observed", Json::s(format!("{:x?}", obs))),
             ]);
             // the kind of neighbour / the loader are part of the identity only where the cause can depend on them
             let from = |g: bool| if g { "from-group" } else { "own" };
-            let sig = if field.starts_with("local-as/") || field.starts_with("role/") || field.starts_with("open-as/") {
+            let sig = if field.starts_with("local-as/")
+                || field.starts_with("role/")
+                || field.starts_with("open-as/")
+            {
                 format!("C16/setup/{}", field)
             } else if field == "hold-time" {
                 format!("C16/setup/{}/{}/{}", field, from(best.hold_from_group), tag)
-            } else if ["families", "addpath", "addpath-send-max", "graceful-restart", "llgr"].contains(&field.as_str()) {
+            } else if [
+                "families",
+                "addpath",
+                "addpath-send-max",
+                "graceful-restart",
+                "llgr",
+            ]
+            .contains(&field.as_str())
+            {
                 format!("C16/setup/{}/{}/{}", field, from(best.fams_from_group), tag)
             } else {
                 format!("C16/setup/{}/{}", field, tag)
@@ -1634,7 +2211,11 @@ impl<'a> World<'a> {
             );
         }
         if self.rep.want_sample() && best.kind != "static" && diffs.is_empty() {
-            let w = self.witness(vec![("address", Json::s(addr.to_string())), ("expected", Json::s(format!("{:x?}", best))), ("observed", Json::s(format!("{:x?}", obs)))]);
+            let w = self.witness(vec![
+                ("address", Json::s(addr.to_string())),
+                ("expected", Json::s(format!("{:x?}", best))),
+                ("observed", Json::s(format!("{:x?}", obs))),
+            ]);
             self.rep.sample(w);
         }
         self.conns[id].peer_as = best.peer_as;
@@ -1655,27 +2236,60 @@ impl<'a> World<'a> {
         let role = self.conns[id].role;
         let want_as = self.conns[id].peer_as;
         let my_as = match drive {
-            Drive::BadAs => if want_as == 64999 { 64998 } else { 64999 },
-            _ => if want_as != 0 { want_as } else { 65077 },
+            Drive::BadAs => {
+                if want_as == 64999 {
+                    64998
+                } else {
+                    64999
+                }
+            }
+            _ => {
+                if want_as != 0 {
+                    want_as
+                } else {
+                    65077
+                }
+            }
         };
         let rid = match addr {
-            IpAddr::V4(a) => u32::from(Ipv4Addr::new(10, a.octets()[1], a.octets()[2], a.octets()[3])),
+            IpAddr::V4(a) => u32::from(Ipv4Addr::new(
+                10,
+                a.octets()[1],
+                a.octets()[2],
+                a.octets()[3],
+            )),
             IpAddr::V6(_) => u32::from(Ipv4Addr::new(10, 0, 0, 6)),
         };
-        let mut caps: Vec<packet::Capability> = self.conns[id].open_mp.iter().map(|f| packet::Capability::MultiProtocol(Family::new((*f >> 16) as u16, *f as u8))).collect();
+        let mut caps: Vec<packet::Capability> = self.conns[id]
+            .open_mp
+            .iter()
+            .map(|f| packet::Capability::MultiProtocol(Family::new((*f >> 16) as u16, *f as u8)))
+            .collect();
         caps.push(packet::Capability::FourOctetAsNumber(my_as));
         let mut out = BytesMut::new();
         let mut codec = bgp::PeerCodec::new();
-        let open = bgp::Message::Open(bgp::Open { as_number: my_as, holdtime: HoldTime::new(3600).unwrap(), router_id: rid, capability: caps });
-        if codec.encode_to(&open, &mut out).is_err() || codec.encode_to(&bgp::Message::Keepalive, &mut out).is_err() {
+        let open = bgp::Message::Open(bgp::Open {
+            as_number: my_as,
+            holdtime: HoldTime::new(3600).unwrap(),
+            router_id: rid,
+            capability: caps,
+        });
+        if codec.encode_to(&open, &mut out).is_err()
+            || codec.encode_to(&bgp::Message::Keepalive, &mut out).is_err()
+        {
             self.rep.count("harness:client-open-not-encodable");
             return;
         }
         self.conns[id].driven = true;
-        self.log(format!("  #{} client sends OPEN as={} + KEEPALIVE ({:?})", id, my_as, drive));
+        self.log(format!(
+            "  #{} client sends OPEN as={} + KEEPALIVE ({:?})",
+            id, my_as, drive
+        ));
         {
             use tokio::io::AsyncWriteExt as _;
-            let Some(c) = self.conns[id].client.as_mut() else { return };
+            let Some(c) = self.conns[id].client.as_mut() else {
+                return;
+            };
             if c.write_all(&out).await.is_err() {
                 self.rep.count("harness:client-write-failed");
             }
@@ -1684,8 +2298,16 @@ impl<'a> World<'a> {
         match self.read_msg(id).await {
             Rd::Msg(bgp::ParsedMessage::Keepalive) => {
                 if drive == Drive::BadAs {
-                    let w = self.witness(vec![("address", Json::s(addr.to_string())), ("configured_as", Json::Int(want_as as i128)), ("sent_as", Json::Int(my_as as i128))]);
-                    self.rep.violation("C16/setup/expected-as/other-as-accepted", "an OPEN from an AS other than the configured one was acknowledged", w);
+                    let w = self.witness(vec![
+                        ("address", Json::s(addr.to_string())),
+                        ("configured_as", Json::Int(want_as as i128)),
+                        ("sent_as", Json::Int(my_as as i128)),
+                    ]);
+                    self.rep.violation(
+                        "C16/setup/expected-as/other-as-accepted",
+                        "an OPEN from an AS other than the configured one was acknowledged",
+                        w,
+                    );
                 } else {
                     self.rep.count("drive:open-acknowledged");
                 }
@@ -1697,7 +2319,9 @@ impl<'a> World<'a> {
                         self.rep.count("drive:ended-after-open");
                         break;
                     }
-                    if self.conns[id].arb.lock().unwrap().state(role) == crate::fsm::State::Established {
+                    if self.conns[id].arb.lock().unwrap().state(role)
+                        == crate::fsm::State::Established
+                    {
                         self.rep.count("drive:established");
                         break;
                     }
@@ -1713,8 +2337,15 @@ impl<'a> World<'a> {
                 match drive {
                     Drive::BadAs if bad_as => self.rep.count("drive:wrong-as-rejected"),
                     Drive::Establish if bad_as => {
-                        let w = self.witness(vec![("address", Json::s(addr.to_string())), ("configured_as", Json::Int(want_as as i128))]);
-                        self.rep.violation("C16/setup/expected-as/configured-as-rejected", "an OPEN from the configured AS was rejected as a bad peer AS", w);
+                        let w = self.witness(vec![
+                            ("address", Json::s(addr.to_string())),
+                            ("configured_as", Json::Int(want_as as i128)),
+                        ]);
+                        self.rep.violation(
+                            "C16/setup/expected-as/configured-as-rejected",
+                            "an OPEN from the configured AS was rejected as a bad peer AS",
+                            w,
+                        );
                     }
                     _ => self.rep.count("drive:other-notification"),
                 }
@@ -1757,7 +2388,11 @@ impl<'a> World<'a> {
         let live = !self.live(&addr).is_empty();
         let present = self.global.read().await.peers.contains_key(&addr);
         self.rep.eval();
-        let shape = if self.conns[ended].had_sibling { "two-connections" } else { "single-connection" };
+        let shape = if self.conns[ended].had_sibling {
+            "two-connections"
+        } else {
+            "single-connection"
+        };
         if self.statics.contains_key(&addr) {
             self.rep.count("cleanup:static-checked");
             if !present {
@@ -1769,10 +2404,14 @@ impl<'a> World<'a> {
                 );
             }
         } else if !live {
-            self.rep.count(&format!("cleanup:dynamic-checked:{}", shape));
+            self.rep
+                .count(&format!("cleanup:dynamic-checked:{}", shape));
             self.rep.nontrivial(self.case_hash() ^ 0xc1ea);
             if present {
-                let w = self.witness(vec![("address", Json::s(addr.to_string())), ("ended_connection", Json::Int(self.conns[ended].id as i128))]);
+                let w = self.witness(vec![
+                    ("address", Json::s(addr.to_string())),
+                    ("ended_connection", Json::Int(self.conns[ended].id as i128)),
+                ]);
                 self.rep.violation(
                     &format!("C16/dynamic-cleanup/entry-remains/{}", shape),
                     "a dynamic neighbour's entry is still in Global.peers after its last connection's task finished",
@@ -1780,7 +2419,11 @@ impl<'a> World<'a> {
                 );
             }
         } else {
-            self.rep.count(if present { "unjudged:cleanup:entry-present-while-other-connection-alive" } else { "unjudged:cleanup:entry-gone-while-other-connection-alive" });
+            self.rep.count(if present {
+                "unjudged:cleanup:entry-present-while-other-connection-alive"
+            } else {
+                "unjudged:cleanup:entry-gone-while-other-connection-alive"
+            });
         }
     }
 
@@ -1809,7 +2452,13 @@ impl<'a> World<'a> {
     async fn op_disable(&mut self, addr: IpAddr) {
         self.log(format!("disable {}", addr));
         self.rep.count("op:disable");
-        let r = self.svc.disable_peer(tonic::Request::new(api::DisablePeerRequest { address: addr.to_string(), communication: String::new() })).await;
+        let r = self
+            .svc
+            .disable_peer(tonic::Request::new(api::DisablePeerRequest {
+                address: addr.to_string(),
+                communication: String::new(),
+            }))
+            .await;
         if r.is_ok() {
             if let Some(n) = self.statics.get_mut(&addr) {
                 n.admin_down = true;
@@ -1821,7 +2470,12 @@ impl<'a> World<'a> {
     async fn op_enable(&mut self, addr: IpAddr) {
         self.log(format!("enable {}", addr));
         self.rep.count("op:enable");
-        let r = self.svc.enable_peer(tonic::Request::new(api::EnablePeerRequest { address: addr.to_string() })).await;
+        let r = self
+            .svc
+            .enable_peer(tonic::Request::new(api::EnablePeerRequest {
+                address: addr.to_string(),
+            }))
+            .await;
         if r.is_ok() {
             if let Some(n) = self.statics.get_mut(&addr) {
                 n.admin_down = false;
@@ -1830,9 +2484,23 @@ impl<'a> World<'a> {
     }
 
     async fn op_delete(&mut self, addr: IpAddr, wait: bool) {
-        self.log(format!("delete {}{}", addr, if wait { "" } else { " (next steps before its sessions have ended)" }));
+        self.log(format!(
+            "delete {}{}",
+            addr,
+            if wait {
+                ""
+            } else {
+                " (next steps before its sessions have ended)"
+            }
+        ));
         self.rep.count("op:delete");
-        let r = self.svc.delete_peer(tonic::Request::new(api::DeletePeerRequest { address: addr.to_string(), interface: String::new() })).await;
+        let r = self
+            .svc
+            .delete_peer(tonic::Request::new(api::DeletePeerRequest {
+                address: addr.to_string(),
+                interface: String::new(),
+            }))
+            .await;
         if r.is_ok() {
             if let Some(n) = self.statics.remove(&addr) {
                 self.removed.push(n);
@@ -1846,7 +2514,12 @@ impl<'a> World<'a> {
     async fn op_add(&mut self, n: NeighGen) {
         self.log(format!("add neighbour {} {:?}", n.addr, n));
         self.rep.count("op:add");
-        let r = self.svc.add_peer(tonic::Request::new(api::AddPeerRequest { peer: Some(neigh_api(&n)) })).await;
+        let r = self
+            .svc
+            .add_peer(tonic::Request::new(api::AddPeerRequest {
+                peer: Some(neigh_api(&n)),
+            }))
+            .await;
         match r {
             Ok(_) => {
                 self.src.insert(n.addr, "grpc");
@@ -1862,20 +2535,38 @@ impl<'a> World<'a> {
 
     async fn op_prefix(&mut self, gi: usize, p: PrefixGen, add: bool) {
         let name = self.groups[gi].name.clone();
-        self.log(format!("{} dynamic prefix {} group {}", if add { "add" } else { "delete" }, p.text, name));
-        self.rep.count(if add { "op:add-prefix" } else { "op:delete-prefix" });
+        self.log(format!(
+            "{} dynamic prefix {} group {}",
+            if add { "add" } else { "delete" },
+            p.text,
+            name
+        ));
+        self.rep.count(if add {
+            "op:add-prefix"
+        } else {
+            "op:delete-prefix"
+        });
         if add {
             let r = self
                 .svc
                 .add_dynamic_neighbor(tonic::Request::new(api::AddDynamicNeighborRequest {
-                    dynamic_neighbor: Some(api::DynamicNeighbor { prefix: p.text.clone(), peer_group: name }),
+                    dynamic_neighbor: Some(api::DynamicNeighbor {
+                        prefix: p.text.clone(),
+                        peer_group: name,
+                    }),
                 }))
                 .await;
             if r.is_ok() {
                 self.groups[gi].prefixes.push(p);
             }
         } else {
-            let r = self.svc.delete_dynamic_neighbor(tonic::Request::new(api::DeleteDynamicNeighborRequest { prefix: p.text.clone(), peer_group: name })).await;
+            let r = self
+                .svc
+                .delete_dynamic_neighbor(tonic::Request::new(api::DeleteDynamicNeighborRequest {
+                    prefix: p.text.clone(),
+                    peer_group: name,
+                }))
+                .await;
             if r.is_ok() {
                 self.groups[gi].prefixes.retain(|x| x.text != p.text);
             }
@@ -1884,7 +2575,9 @@ impl<'a> World<'a> {
 
     /// delete + re-add while a connection of the old neighbour is still winding down
     async fn op_replace_race(&mut self, addr: IpAddr, role: Role) {
-        let Some(n) = self.statics.get(&addr).cloned() else { return };
+        let Some(n) = self.statics.get(&addr).cloned() else {
+            return;
+        };
         self.rep.count("op:replace-while-connected");
         // whatever this leaves behind (see the probe below) is not described by the model:
         // the history ends with this step and the wind-down
@@ -1892,14 +2585,18 @@ impl<'a> World<'a> {
         let pair = match self.make_pair(addr, role).await {
             Ok(p) => p,
             Err(e) => {
-                self.abort(&format!("harness: cannot build a loopback connection: {}", e));
+                self.abort(&format!(
+                    "harness: cannot build a loopback connection: {}",
+                    e
+                ));
                 return;
             }
         };
         let old = self.live(&addr);
         self.op_delete(addr, false).await;
         self.op_add(n).await;
-        self.op_connect(addr, role, Drive::Silent, Some(pair), false).await;
+        self.op_connect(addr, role, Drive::Silent, Some(pair), false)
+            .await;
         for i in old {
             if self.aborted {
                 return;
@@ -1917,7 +2614,8 @@ impl<'a> World<'a> {
                 self.op_connect(addr, role, Drive::Silent, None, true).await;
                 self.probe_tag = None;
             } else {
-                self.rep.count("replace-while-connected:probe-not-judgeable");
+                self.rep
+                    .count("replace-while-connected:probe-not-judgeable");
             }
         }
     }
@@ -1925,11 +2623,21 @@ impl<'a> World<'a> {
 
 // ------------------------------------------------------------------ one configuration + one history
 
-async fn run_scenario(cfg: &CfgGen, rng: &mut Rng, rep: &mut Report, n_ops: usize, trace: bool, index: u64) {
+async fn run_scenario(
+    cfg: &CfgGen,
+    rng: &mut Rng,
+    rep: &mut Report,
+    n_ops: usize,
+    trace: bool,
+    index: u64,
+) {
     let mut w = match build_world(cfg, rep, trace, index).await {
         Ok(w) => w,
         Err(e) => {
-            rep.inconclusive(&format!("harness: generated configuration not loadable: {}", e));
+            rep.inconclusive(&format!(
+                "harness: generated configuration not loadable: {}",
+                e
+            ));
             return;
         }
     };
@@ -1957,10 +2665,18 @@ async fn run_scenario(cfg: &CfgGen, rng: &mut Rng, rep: &mut Report, n_ops: usiz
                 Some(a) => a,
                 None => {
                     // lean towards addresses that already have something going on
-                    if !live.is_empty() && rng.chance(1, 3) { w.conns[*rng.pick(&live)].addr } else { *rng.pick(&w.universe) }
+                    if !live.is_empty() && rng.chance(1, 3) {
+                        w.conns[*rng.pick(&live)].addr
+                    } else {
+                        *rng.pick(&w.universe)
+                    }
                 }
             };
-            let role = if rng.chance(7, 10) { Role::Passive } else { Role::Active };
+            let role = if rng.chance(7, 10) {
+                Role::Passive
+            } else {
+                Role::Active
+            };
             let drive = match rng.below(10) {
                 0..=5 => Drive::Silent,
                 6..=8 => Drive::Establish,
@@ -1973,13 +2689,25 @@ async fn run_scenario(cfg: &CfgGen, rng: &mut Rng, rep: &mut Report, n_ops: usiz
                 w.op_disconnect(i).await;
             }
         } else if k < 74 {
-            let addr = if !statics.is_empty() && rng.chance(4, 5) { *rng.pick(&statics) } else { *rng.pick(&w.universe) };
+            let addr = if !statics.is_empty() && rng.chance(4, 5) {
+                *rng.pick(&statics)
+            } else {
+                *rng.pick(&w.universe)
+            };
             w.op_disable(addr).await;
         } else if k < 80 {
-            let addr = if !statics.is_empty() && rng.chance(4, 5) { *rng.pick(&statics) } else { *rng.pick(&w.universe) };
+            let addr = if !statics.is_empty() && rng.chance(4, 5) {
+                *rng.pick(&statics)
+            } else {
+                *rng.pick(&w.universe)
+            };
             w.op_enable(addr).await;
         } else if k < 85 {
-            let addr = if !statics.is_empty() && rng.chance(4, 5) { *rng.pick(&statics) } else { *rng.pick(&w.universe) };
+            let addr = if !statics.is_empty() && rng.chance(4, 5) {
+                *rng.pick(&statics)
+            } else {
+                *rng.pick(&w.universe)
+            };
             w.op_delete(addr, true).await;
         } else if k < 91 {
             // re-add a deleted neighbour (possibly changed), or a new one on a free address
@@ -1992,17 +2720,33 @@ async fn run_scenario(cfg: &CfgGen, rng: &mut Rng, rep: &mut Report, n_ops: usiz
                 }
                 Some(n)
             } else {
-                let free: Vec<IpAddr> = w.universe.iter().copied().filter(|a| !w.statics.contains_key(a)).collect();
+                let free: Vec<IpAddr> = w
+                    .universe
+                    .iter()
+                    .copied()
+                    .filter(|a| !w.statics.contains_key(a))
+                    .collect();
                 if free.is_empty() {
                     None
                 } else {
                     let a = *rng.pick(&free);
-                    let group = if !w.groups.is_empty() && rng.bool() { Some(rng.pick(&w.groups).name.clone()) } else { None };
-                    let mut c = gen_common(rng, false, a.is_ipv6(), w.confed.is_some(), group.is_some());
+                    let group = if !w.groups.is_empty() && rng.bool() {
+                        Some(rng.pick(&w.groups).name.clone())
+                    } else {
+                        None
+                    };
+                    let mut c =
+                        gen_common(rng, false, a.is_ipv6(), w.confed.is_some(), group.is_some());
                     if group.is_none() && c.peer_as == 0 {
                         c.peer_as = 65002;
                     }
-                    Some(NeighGen { addr: a, c, group, admin_down: rng.chance(1, 5), export: None })
+                    Some(NeighGen {
+                        addr: a,
+                        c,
+                        group,
+                        admin_down: rng.chance(1, 5),
+                        export: None,
+                    })
                 }
             };
             if let Some(n) = n {
@@ -2012,7 +2756,16 @@ async fn run_scenario(cfg: &CfgGen, rng: &mut Rng, rep: &mut Report, n_ops: usiz
             }
         } else if k < 95 {
             // replace a configured neighbour while one of its connections is alive
-            let cand: Vec<usize> = live.iter().copied().filter(|i| w.statics.get(&w.conns[*i].addr).is_some_and(|n| !n.admin_down) && !w.conns[*i].dynamic).collect();
+            let cand: Vec<usize> = live
+                .iter()
+                .copied()
+                .filter(|i| {
+                    w.statics
+                        .get(&w.conns[*i].addr)
+                        .is_some_and(|n| !n.admin_down)
+                        && !w.conns[*i].dynamic
+                })
+                .collect();
             if !cand.is_empty() {
                 let i = *rng.pick(&cand);
                 let (a, r) = (w.conns[i].addr, w.conns[i].role);
@@ -2026,7 +2779,13 @@ async fn run_scenario(cfg: &CfgGen, rng: &mut Rng, rep: &mut Report, n_ops: usiz
             } else {
                 let base = *rng.pick(&w.universe);
                 let (v6, bits) = addr_bits(&base);
-                let len = if v6 { *rng.pick(&[0u8, 1, 64, 127, 128]) } else if rng.chance(1, 8) { rng.range(0, 8) as u8 } else { rng.range(9, 32) as u8 };
+                let len = if v6 {
+                    *rng.pick(&[0u8, 1, 64, 127, 128])
+                } else if rng.chance(1, 8) {
+                    rng.range(0, 8) as u8
+                } else {
+                    rng.range(9, 32) as u8
+                };
                 let p = prefix_of(v6, bits, len);
                 if !w.groups[gi].prefixes.iter().any(|x| x.text == p.text) {
                     w.op_prefix(gi, p, true).await;
@@ -2059,7 +2818,10 @@ async fn run_scenario(cfg: &CfgGen, rng: &mut Rng, rep: &mut Report, n_ops: usiz
         if keys != want {
             let extra: Vec<String> = keys.difference(&want).map(|a| a.to_string()).collect();
             let missing: Vec<String> = want.difference(&keys).map(|a| a.to_string()).collect();
-            let wit = w.witness(vec![("left_over", Json::strs(extra.clone())), ("missing", Json::strs(missing.clone()))]);
+            let wit = w.witness(vec![
+                ("left_over", Json::strs(extra.clone())),
+                ("missing", Json::strs(missing.clone())),
+            ]);
             if !extra.is_empty() {
                 w.rep.violation("C16/dynamic-cleanup/entries-left-at-the-end", "after every connection ended Global.peers still holds entries that are not configured neighbours", wit);
             } else {
@@ -2072,7 +2834,14 @@ async fn run_scenario(cfg: &CfgGen, rng: &mut Rng, rep: &mut Report, n_ops: usiz
 // ------------------------------------------------------------------ GR / LLGR / send-max mirror (daemon side of the capability half)
 
 fn mk_context() -> Arc<std::sync::Mutex<PeerContext>> {
-    let fsm = crate::fsm::PeerFsm::new(u32::from(router_id()), GLOBAL_AS, vec![], 90, 0, FnvHashMap::default());
+    let fsm = crate::fsm::PeerFsm::new(
+        u32::from(router_id()),
+        GLOBAL_AS,
+        vec![],
+        90,
+        0,
+        FnvHashMap::default(),
+    );
     Arc::new(std::sync::Mutex::new(PeerContext {
         conn_arbiter: Arc::new(std::sync::Mutex::new(ConnArbiter::new(fsm))),
         active_connect_cancel_tx: None,
@@ -2086,7 +2855,12 @@ fn mk_context() -> Arc<std::sync::Mutex<PeerContext>> {
 }
 
 fn wire_caps(caps: &[packet::Capability]) -> Option<Vec<packet::Capability>> {
-    let msg = bgp::Message::Open(bgp::Open { as_number: 65000, holdtime: HoldTime::new(90).unwrap(), router_id: 0x0101_0101, capability: caps.to_vec() });
+    let msg = bgp::Message::Open(bgp::Open {
+        as_number: 65000,
+        holdtime: HoldTime::new(90).unwrap(),
+        router_id: 0x0101_0101,
+        capability: caps.to_vec(),
+    });
     let mut buf = BytesMut::new();
     bgp::PeerCodec::new().encode_to(&msg, &mut buf).ok()?;
     match bgp::PeerCodec::new().try_parse(&mut buf) {
@@ -2113,14 +2887,22 @@ fn gen_gr_caps(rng: &mut Rng, uni: &[Family]) -> Vec<packet::Capability> {
                 }
             }
         }
-        v.push(packet::Capability::GracefulRestart { flags: rng.below(16) as u8, restart_time: *rng.pick(&[0u16, 1, 120, 4095]), families: fams });
+        v.push(packet::Capability::GracefulRestart {
+            flags: rng.below(16) as u8,
+            restart_time: *rng.pick(&[0u16, 1, 120, 4095]),
+            families: fams,
+        });
     }
     let n_l = *rng.pick(&[0usize, 1, 1, 1, 1, 2]);
     for _ in 0..n_l {
         let mut fams: Vec<(Family, u8, u32)> = Vec::new();
         for f in uni {
             if rng.chance(3, 5) {
-                fams.push((*f, *rng.pick(&[0u8, 0x80]), *rng.pick(&[0u32, 0, 1, 600, 0xff_ffff])));
+                fams.push((
+                    *f,
+                    *rng.pick(&[0u8, 0x80]),
+                    *rng.pick(&[0u32, 0, 1, 600, 0xff_ffff]),
+                ));
                 if rng.chance(1, 8) {
                     fams.push((*f, 0, *rng.pick(&[0u32, 77])));
                 }
@@ -2149,9 +2931,18 @@ fn gen_gr_caps(rng: &mut Rng, uni: &[Family]) -> Vec<packet::Capability> {
 fn gr_adv(c: &[packet::Capability], f: Family) -> (bool, bool) {
     let lists: Vec<bool> = c
         .iter()
-        .filter_map(|x| if let packet::Capability::GracefulRestart { families, .. } = x { Some(families.iter().any(|(ff, _)| *ff == f)) } else { None })
+        .filter_map(|x| {
+            if let packet::Capability::GracefulRestart { families, .. } = x {
+                Some(families.iter().any(|(ff, _)| *ff == f))
+            } else {
+                None
+            }
+        })
         .collect();
-    (!lists.is_empty() && lists.iter().all(|x| *x), lists.iter().any(|x| *x))
+    (
+        !lists.is_empty() && lists.iter().all(|x| *x),
+        lists.iter().any(|x| *x),
+    )
 }
 
 /// (advertised with a non-zero time in every instance and entry, advertised at all)
@@ -2162,7 +2953,11 @@ fn llgr_adv(c: &[packet::Capability], f: Family) -> (bool, bool) {
     for x in c {
         if let packet::Capability::LongLivedGracefulRestart(v) = x {
             inst += 1;
-            let es: Vec<u32> = v.iter().filter(|(ff, _, _)| *ff == f).map(|(_, _, t)| *t).collect();
+            let es: Vec<u32> = v
+                .iter()
+                .filter(|(ff, _, _)| *ff == f)
+                .map(|(_, _, t)| *t)
+                .collect();
             if es.is_empty() || es.iter().any(|t| *t == 0) {
                 all = false;
             }
@@ -2198,21 +2993,38 @@ fn gr_mirror_part(rep: &mut Report, rng: &mut Rng, n: u64) {
         let mut sr = PeerSession::new_for_test(any_addr, mk_context(), tables.clone());
         sr.local_cap = r.clone();
         // each end: own list as configured, the other's as decoded from its OPEN
-        let res = guard(|| (sl.negotiate_gr(&rw), sr.negotiate_gr(&lw), sl.negotiate_llgr(&rw), sr.negotiate_llgr(&lw)));
+        let res = guard(|| {
+            (
+                sl.negotiate_gr(&rw),
+                sr.negotiate_gr(&lw),
+                sl.negotiate_llgr(&rw),
+                sr.negotiate_llgr(&lw),
+            )
+        });
         rep.eval();
         rep.count("mirror:gr-llgr-pairs");
         let (gl, gr, ll, lr) = match res {
             Ok(x) => x,
             Err(p) => {
-                rep.violation(&format!("C16/panic/{}:{}", p.location, panic_class(&p.message)), &p.message, Json::obj(vec![("L", caps_json(&l)), ("R", caps_json(&r))]));
+                rep.violation(
+                    &format!("C16/panic/{}:{}", p.location, panic_class(&p.message)),
+                    &p.message,
+                    Json::obj(vec![("L", caps_json(&l)), ("R", caps_json(&r))]),
+                );
                 continue;
             }
         };
-        let set = |v: Option<Vec<Family>>| -> BTreeSet<u32> { v.unwrap_or_default().into_iter().map(fid).collect() };
+        let set = |v: Option<Vec<Family>>| -> BTreeSet<u32> {
+            v.unwrap_or_default().into_iter().map(fid).collect()
+        };
         let gls = set(gl.as_ref().map(|g| g.families.clone()));
         let grs = set(gr.as_ref().map(|g| g.families.clone()));
-        let lls = set(ll.as_ref().map(|g| g.families.iter().map(|(f, _)| *f).collect()));
-        let lrs = set(lr.as_ref().map(|g| g.families.iter().map(|(f, _)| *f).collect()));
+        let lls = set(ll
+            .as_ref()
+            .map(|g| g.families.iter().map(|(f, _)| *f).collect()));
+        let lrs = set(lr
+            .as_ref()
+            .map(|g| g.families.iter().map(|(f, _)| *f).collect()));
         rep.nontrivial(fnv64(format!("{:?}|{:?}", l, r).as_bytes()));
         let wit = |what: &str| {
             Json::obj(vec![
@@ -2225,9 +3037,17 @@ fn gr_mirror_part(rep: &mut Report, rng: &mut Rng, n: u64) {
                 ("llgr_at_R", Json::s(format!("{:x?}", lrs))),
             ])
         };
-        let dup_gr = |c: &[packet::Capability]| c.iter().filter(|x| matches!(x, packet::Capability::GracefulRestart { .. })).count() > 1;
+        let dup_gr = |c: &[packet::Capability]| {
+            c.iter()
+                .filter(|x| matches!(x, packet::Capability::GracefulRestart { .. }))
+                .count()
+                > 1
+        };
         let dup_llgr = |c: &[packet::Capability]| {
-            c.iter().filter(|x| matches!(x, packet::Capability::LongLivedGracefulRestart(_))).count() > 1
+            c.iter()
+                .filter(|x| matches!(x, packet::Capability::LongLivedGracefulRestart(_)))
+                .count()
+                > 1
                 || c.iter().any(|x| {
                     if let packet::Capability::LongLivedGracefulRestart(v) = x {
                         let mut s = BTreeSet::new();
@@ -2239,14 +3059,22 @@ fn gr_mirror_part(rep: &mut Report, rng: &mut Rng, n: u64) {
         };
         if gls != grs {
             rep.violation(
-                if dup_gr(&l) || dup_gr(&r) { "C16/mirror/gr-family-set/duplicate-capability" } else { "C16/mirror/gr-family-set" },
+                if dup_gr(&l) || dup_gr(&r) {
+                    "C16/mirror/gr-family-set/duplicate-capability"
+                } else {
+                    "C16/mirror/gr-family-set"
+                },
                 "graceful restart is in force for different families at the two ends",
                 wit("gr sets differ"),
             );
         }
         if lls != lrs {
             rep.violation(
-                if dup_llgr(&l) || dup_llgr(&r) { "C16/mirror/llgr-family-set/duplicate-entries" } else { "C16/mirror/llgr-family-set" },
+                if dup_llgr(&l) || dup_llgr(&r) {
+                    "C16/mirror/llgr-family-set/duplicate-entries"
+                } else {
+                    "C16/mirror/llgr-family-set"
+                },
                 "LLGR is in force for different families at the two ends",
                 wit("llgr sets differ"),
             );
@@ -2258,14 +3086,22 @@ fn gr_mirror_part(rep: &mut Report, rng: &mut Rng, n: u64) {
             if ld && rd {
                 rep.count("mirror:gr-inforce");
                 if !gls.contains(&id) || !grs.contains(&id) {
-                    rep.violation("C16/mirror/gr/not-in-force", "a family both ends advertised in their GR capability is not in force", wit(&format!("family {:#x}", id)));
+                    rep.violation(
+                        "C16/mirror/gr/not-in-force",
+                        "a family both ends advertised in their GR capability is not in force",
+                        wit(&format!("family {:#x}", id)),
+                    );
                 }
             } else if !(lp && rp) {
                 if lp || rp {
                     rep.count("mirror:gr-one-sided");
                 }
                 if gls.contains(&id) || grs.contains(&id) {
-                    rep.violation("C16/mirror/gr/one-sided", "graceful restart in force for a family only one end advertised", wit(&format!("family {:#x}", id)));
+                    rep.violation(
+                        "C16/mirror/gr/one-sided",
+                        "graceful restart in force for a family only one end advertised",
+                        wit(&format!("family {:#x}", id)),
+                    );
                 }
             } else {
                 rep.count("unjudged:mirror:gr-duplicate-capabilities");
@@ -2282,7 +3118,11 @@ fn gr_mirror_part(rep: &mut Report, rng: &mut Rng, n: u64) {
                     rep.count("mirror:llgr-one-sided");
                 }
                 if lls.contains(&id) || lrs.contains(&id) {
-                    rep.violation("C16/mirror/llgr/one-sided", "LLGR in force for a family only one end advertised", wit(&format!("family {:#x}", id)));
+                    rep.violation(
+                        "C16/mirror/llgr/one-sided",
+                        "LLGR in force for a family only one end advertised",
+                        wit(&format!("family {:#x}", id)),
+                    );
                 }
             } else {
                 rep.count("unjudged:mirror:llgr-zero-time-or-duplicates");
@@ -2296,7 +3136,14 @@ fn gr_mirror_part(rep: &mut Report, rng: &mut Rng, n: u64) {
             }
         }
         let out = guard(|| {
-            let mut fsm = crate::fsm::PeerFsm::new(u32::from(router_id()), GLOBAL_AS, l.clone(), 90, 0, send_max.clone());
+            let mut fsm = crate::fsm::PeerFsm::new(
+                u32::from(router_id()),
+                GLOBAL_AS,
+                l.clone(),
+                90,
+                0,
+                send_max.clone(),
+            );
             let mut outs = fsm.process(Role::Passive, crate::fsm::Input::Connected(false));
             outs.extend(fsm.process(
                 Role::Passive,
@@ -2307,7 +3154,10 @@ fn gr_mirror_part(rep: &mut Report, rng: &mut Rng, n: u64) {
                     capability: rw.clone(),
                 })),
             ));
-            outs.extend(fsm.process(Role::Passive, crate::fsm::Input::MessageReceived(bgp::Message::Keepalive)));
+            outs.extend(fsm.process(
+                Role::Passive,
+                crate::fsm::Input::MessageReceived(bgp::Message::Keepalive),
+            ));
             outs
         });
         let Ok(outs) = out else { continue };
@@ -2315,8 +3165,14 @@ fn gr_mirror_part(rep: &mut Report, rng: &mut Rng, n: u64) {
         let mut eff = None;
         for o in outs {
             match o {
-                crate::fsm::PeerFsmOutput::Connection(_, crate::fsm::Output::SessionNegotiated(c)) => codec = Some(c),
-                crate::fsm::PeerFsmOutput::Connection(_, crate::fsm::Output::SessionEstablished { effective_max, .. }) => eff = Some(effective_max),
+                crate::fsm::PeerFsmOutput::Connection(
+                    _,
+                    crate::fsm::Output::SessionNegotiated(c),
+                ) => codec = Some(c),
+                crate::fsm::PeerFsmOutput::Connection(
+                    _,
+                    crate::fsm::Output::SessionEstablished { effective_max, .. },
+                ) => eff = Some(effective_max),
                 _ => {}
             }
         }
@@ -2359,7 +3215,10 @@ fn run() {
     let mut rng = Rng::new(params.seed ^ 0xC16);
     let part = params.get("part").unwrap_or("all").to_string();
     if part == "all" || part == "grmirror" {
-        let rt = tokio::runtime::Builder::new_current_thread().enable_all().build().expect("runtime");
+        let rt = tokio::runtime::Builder::new_current_thread()
+            .enable_all()
+            .build()
+            .expect("runtime");
         let n = params.n(40_000, 400_000);
         let mut r2 = rng.fork();
         // PeerSession::new_for_test creates (never polled) tokio timers
@@ -2374,7 +3233,11 @@ fn run() {
             if !rep.in_budget() {
                 break;
             }
-            let mut r = Rng::new((params.seed ^ 0xC16).wrapping_mul(1_000_003).wrapping_add(i));
+            let mut r = Rng::new(
+                (params.seed ^ 0xC16)
+                    .wrapping_mul(1_000_003)
+                    .wrapping_add(i),
+            );
             let cfg = gen_cfg(&mut r);
             let n_ops = r.range(10, 30) as usize;
             if let Some(o) = only {
@@ -2384,7 +3247,10 @@ fn run() {
             }
             rep.extra.retain(|(k, _)| k != "last_configuration_index");
             // one runtime per history: whatever tasks a history leaves behind end with it
-            let rt = tokio::runtime::Builder::new_current_thread().enable_all().build().expect("runtime");
+            let rt = tokio::runtime::Builder::new_current_thread()
+                .enable_all()
+                .build()
+                .expect("runtime");
             let res = std::panic::catch_unwind(std::panic::AssertUnwindSafe(|| {
                 rt.block_on(run_scenario(&cfg, &mut r, &mut rep, n_ops, trace, i));
             }));
@@ -2396,8 +3262,15 @@ fn run() {
                 } else {
                     rep.violation(
                         &format!("C16/panic/{}:{}", loc, panic_class(&msg)),
-                        &format!("panic while loading a configuration / accepting a connection: {}", msg),
-                        Json::obj(vec![("configuration", Json::s(cfg_toml(&cfg))), ("loader", Json::s(format!("{:?}", cfg.loader))), ("configuration_index", Json::Int(i as i128))]),
+                        &format!(
+                            "panic while loading a configuration / accepting a connection: {}",
+                            msg
+                        ),
+                        Json::obj(vec![
+                            ("configuration", Json::s(cfg_toml(&cfg))),
+                            ("loader", Json::s(format!("{:?}", cfg.loader))),
+                            ("configuration_index", Json::Int(i as i128)),
+                        ]),
                     );
                 }
             }
